@@ -2,19 +2,21 @@
 striping convention, pair orientation, serial fallback completeness,
 reductions, nullness of the cold-start branch."""
 import ast
+import copy
 
 from .. import nullness
-from ..cfg import ENTRY, EXIT, Assume
+from ..cfg import ENTRY, EXIT, Assume, header_exprs
 from ..core import (AnalysisIncomplete, call_name, const_value, dotted, kwarg,
                     names_loaded, params, target_names, u, walk_expr,
                     walk_local)
-from ..patterns import (Cmp, assigns_to, calls_in, check_no_arg_mutation,
-                        conjuncts, finfo, returns_of, shared,
-                        subscript_stores)
+from ..patterns import (Cmp, assigns_to, calls_in, conjuncts, finfo,
+                        returns_of, shared, subscript_stores)
 from ..spmd import SPMD, collective_name
 from .cluster_common import KC, KM, HY, CU, check_running_min_commit
 from .C15 import d_striped
-from ..match import C, CS
+from ..match import C, canon, _NEUTRAL
+from ..match import classify as _classify
+from ..normal import PURE_FUNCS, PURE_METHODS, IMPURE_NP
 
 OPS = 'enspara/mpi/ops.py'
 IO = 'enspara/mpi/io.py'
@@ -51,36 +53,456 @@ LOCAL_PARAMS = {
     (CU, 'load_trajectories'): [],
     (CU, 'load_trjs_or_features'): [],
 }
+# thin wrappers (estimator methods / aliases) that only forward to a function
+# of the table
+WRAPPERS = {(HY, 'KHybrid.fit'), (KC, 'KCenters.fit'), (KC, 'kcenters_mpi'), (KM, 'KMedoids.fit')}
 # names that are rank-local although not parameters
 LOCAL_NAMES = {(APP, 'main'): ['data', 'local_dists', 'local_assigs'],
                (KC, 'kcenters'): ['assignments', 'distances']}
 
 EXPLANATION = (
     'Static SPMD analysis (the MPI code cannot be executed in this sandbox at '
-    'all): (D1) no collective (mpi.comm.* call or package function that '
-    'transitively contains one) is control-dependent on a rank-divergent '
-    'condition unless both branches issue the same collective sequence with '
-    'the same root; no return under a divergent condition precedes a later '
-    'collective; loops containing collectives have rank-uniform trip counts '
-    '(uniformity taint from mpi.rank() and the rank-local parameters of a '
-    'frozen table, cleared by allreduce/allgather/bcast results); (D2) the '
-    'rank that fills a broadcast buffer is the broadcast root, reassembly '
-    'roots equal the stripe offset; (D3) every striping site uses x[r::size] '
-    'with size = mpi.size() and r = rank / loop rank / id % size; (D4) '
-    '(owner_rank, local_index) pairs are produced and consumed in that order; '
-    '(D5) every mpi.comm / mpi.mpi4py attribute reachable when size() == 1 '
-    'exists on the serial fallback classes; (D6) the MPI cold-start branch '
-    'does not use a value it has just tested to be None (known finding); (D7) '
-    'striped loaders return strided lengths; (D8) striped reductions derive '
-    'every global quantity from a collective over the matching local '
-    'quantity; plus the strict running-minimum commit of the MPI k-centers '
-    'iteration. Equality with the serial run for every world size is not '
-    'decided.')
+    'all). Constructs are located by ROLE (the buffer of the Bcast, the '
+    'definitions that reach it, the array that is returned, the value '
+    'compared in the loop test, the two names a pair is unpacked into) and '
+    'compared after expansion of temporaries, under the path condition the '
+    'CFG gives (dominating branch assumptions), so renamed locals, extracted '
+    'or inlined temporaries, flipped comparisons, inverted branches and guard '
+    'clauses do not matter; an unrecognised shape is reported as incomplete, '
+    'never as a violation. (D1) no collective (mpi.comm.* call or package '
+    'function that transitively contains one, helpers defined inside a '
+    'function included) is control-dependent on a rank-divergent condition '
+    'unless both branches issue the same collective sequence with the same '
+    'root; no return under a divergent condition is followed, on the other '
+    'branch, by a collective; loops containing collectives have rank-uniform '
+    'trip counts (uniformity taint from mpi.rank() and the rank-local '
+    'parameters of a frozen table, cleared by allreduce/allgather/bcast '
+    'results; a function with collectives that is not in the table makes the '
+    'analysis incomplete); (D2) the rank that fills the broadcast buffer with '
+    'data[world_index] is the Bcast root, the others allocate a receive '
+    'buffer, the Bcast is unconditional and an owner >= size() is rejected; '
+    'reassembly roots equal the stripe offset, ragged reassembly cuts rank '
+    'r\'s data by global_lengths[r::size] and keeps the single-trajectory '
+    'special case; (D3) every striping site uses x[r::size] with size = '
+    'mpi.size() and r = rank / loop rank / id % size / owner component of a '
+    'pair, the local trajectory id is id // size; (D4) (owner_rank, '
+    'local_index) pairs are produced and consumed in that order '
+    '(convert_local_indices, randind and its rank table and broadcast draw, '
+    'every distribute_frame call fed by a pair, the pairs built next to such a '
+    'call, ctr_ids_mpi, the local-centre filter of kmedoids); (D5) every '
+    'mpi.comm / mpi.mpi4py attribute reachable when size() == 1 exists on the '
+    'serial fallback classes; (D6) the MPI cold-start branch does not use a '
+    'value it has just tested to be None (known finding); (D7) striped '
+    'loaders return strided lengths; (D8) striped reductions derive every '
+    'global quantity from an allreduce (with the right operator) over the '
+    'matching local quantity, the k-medoids cost is the striped mean of the '
+    'squares and the k-centers stopping radius is the striped max in MPI mode '
+    'at every definition that reaches the loop test; plus the strict '
+    'running-minimum commit of the MPI k-centers iteration. Equality with the '
+    'serial run for every world size is not decided.')
+
+
+# ---------------------------------------------------------------------------
+# helpers: expansion of temporaries with the purity notion of the MPI layer
+# (mpi.size()/mpi.rank() are run-time constants, RaggedArray construction and
+# ra.where build fresh objects), path conditions from the CFG, role finders
+
+_PURE_CALLS = {'mpi.size', 'mpi.rank', 'ra.RaggedArray', 'RaggedArray', 'ra.where'}
+_SWAP = {'<': '>', '>': '<', '<=': '>=', '>=': '<=', '==': '==', '!=': '!='}
+_GLOBALS = {'np', 'numpy', 'mpi', 'ra', 'math', 'util'}
+
+
+def _pure(e):
+    """normal.is_pure, plus the calls of _PURE_CALLS."""
+    for n in ast.walk(e):
+        if isinstance(n, (ast.Yield, ast.YieldFrom, ast.Await, ast.NamedExpr, ast.Lambda)):
+            return False
+        if isinstance(n, ast.Call):
+            cn = call_name(n) or ''
+            if cn in _PURE_CALLS:
+                continue
+            if isinstance(n.func, ast.Name):
+                if n.func.id not in PURE_FUNCS:
+                    return False
+            elif isinstance(n.func, ast.Attribute):
+                if cn.startswith(('np.', 'numpy.', 'scipy.', 'math.')):
+                    if cn in IMPURE_NP or '.random.' in cn:
+                        return False
+                elif n.func.attr not in PURE_METHODS:
+                    return False
+            else:
+                return False
+    return True
+
+
+def unpack_source(fi, name, here):
+    """`a, b = <value>` (value not a tuple display): for the use of `a` at
+    statement `here` return (value, position, site), else None."""
+    defs = fi.rd.defs_at(here, name)
+    if len(defs) != 1:
+        return None
+    site = next(iter(defs))
+    if not isinstance(site, ast.Assign) or len(site.targets) != 1:
+        return None
+    t = site.targets[0]
+    if isinstance(t, (ast.Tuple, ast.List)) and not isinstance(site.value, (ast.Tuple, ast.List)) and \
+            all(isinstance(x, ast.Name) for x in t.elts):
+        ids = [x.id for x in t.elts]
+        if ids.count(name) == 1:
+            return site.value, ids.index(name), site
+    return None
+
+
+def _temp(fi, name, here, strict):
+    """(defining expression, definition site) if the use of `name` at
+    statement `here` denotes a temporary: exactly one reaching definition
+    `name = <pure expression>` (or a component of an unpacked pure call) and
+    the object is never mutated in place."""
+    defs = fi.rd.defs_at(here, name)
+    if len(defs) != 1:
+        return None
+    site = next(iter(defs))
+    if site in ('PARAM', 'UNBOUND') or not isinstance(site, (ast.Assign, ast.AnnAssign)):
+        return None
+    v = fi.def_value(site, name)
+    if v is None:
+        us = unpack_source(fi, name, here)
+        if us is not None and isinstance(us[0], ast.Call):
+            v = ast.Subscript(value=us[0], slice=ast.Constant(value=us[1]), ctx=ast.Load())
+    if v is None or isinstance(v, ast.GeneratorExp) or not _pure(v):
+        return None
+    if fi._mutated_in_place(name):
+        return None
+    return v, site
+
+
+def _comp_bound(e):
+    out = set()
+    for x in ast.walk(e):
+        if isinstance(x, ast.comprehension):
+            out.update(target_names(x.target))
+    return out
+
+
+def expand(fi, e, here=None, stop=(), strict=True, depth=10):
+    """Copy of `e` with every temporary replaced by its definition,
+    recursively.  Unlike FuncInfo.expand the operands of a definition are
+    expanded in the context of the DEFINITION site, so chains through a
+    re-bound name (`a, b = f(x); a, b = a[0], b[0]`) are followed; a name
+    that remains in the result must have the same reaching definitions (and,
+    with strict, no in-place mutation of its object) at the definition site
+    and at the use, otherwise the temporary is left alone."""
+    here = here if here is not None else fi.stmt(e)
+    stop = set(stop)
+
+    def leaves_ok(sub, site, use, bound):
+        for m in ast.walk(sub):
+            if not (isinstance(m, ast.Name) and getattr(m, '_at', None) is site) or m.id in bound:
+                continue
+            if fi.rd.defs_at(site, m.id) != fi.rd.defs_at(use, m.id):
+                return False
+            if strict:
+                for ms in fi._mutated_in_place(m.id):
+                    if ms is use or ms is site:
+                        continue
+                    if fi.cfg.reachable(site, ms, avoiding=[use]) and fi.cfg.reachable(ms, use, avoiding=[site]):
+                        return False
+        return True
+
+    def ex(x, d, bound, at):
+        if isinstance(x, ast.Name):
+            if d > 0 and isinstance(x.ctx, ast.Load) and x.id not in stop and x.id not in bound:
+                t = _temp(fi, x.id, at, strict)
+                if t is not None:
+                    v, site = t
+                    sub = ex(v, d - 1, bound | _comp_bound(v), site)
+                    if leaves_ok(sub, site, at, bound | _comp_bound(v)):
+                        for m in ast.walk(sub):
+                            if isinstance(m, ast.Name) and getattr(m, '_at', None) is site:
+                                m._at = at
+                        return sub
+            new = ast.copy_location(ast.Name(id=x.id, ctx=x.ctx), x)
+            new._at = at
+            return new
+        if not isinstance(x, ast.AST):
+            return x
+        if isinstance(x, (ast.expr_context, ast.operator, ast.unaryop, ast.boolop, ast.cmpop)):
+            return x
+        new = type(x)()
+        for f in x._fields:
+            val = getattr(x, f, None)
+            if isinstance(val, list):
+                setattr(new, f, [ex(y, d, bound, at) for y in val])
+            elif isinstance(val, ast.AST):
+                setattr(new, f, ex(val, d, bound, at))
+            else:
+                setattr(new, f, val)
+        for a in ('lineno', 'col_offset', 'end_lineno', 'end_col_offset'):
+            if hasattr(x, a):
+                setattr(new, a, getattr(x, a))
+        return new
+    return ex(e, depth, _comp_bound(e), here)
+
+
+class _NormCalls(ast.NodeTransformer):
+    """positional -> keyword for the calls whose argument ROLES the rules
+    compare (RaggedArray(array, lengths), distribute_frame(data, world_index,
+    owner_rank), collectives (obj, root / op))."""
+    SIG = {'ra.RaggedArray': ['array', 'lengths'], 'RaggedArray': ['array', 'lengths'],
+           'mpi.comm.bcast': ['obj', 'root'], 'mpi.comm.Bcast': ['buf', 'root'],
+           'mpi.comm.allreduce': ['sendobj', 'op']}
+
+    def visit_Call(self, node):
+        self.generic_visit(node)
+        sig = self.SIG.get(call_name(node) or '')
+        if sig and len(node.args) > 1 and not any(isinstance(a, ast.Starred) for a in node.args):
+            extra = node.args[1:]
+            node.args = node.args[:1]
+            for nm, a in zip(sig[1:], extra):
+                node.keywords.append(ast.keyword(arg=nm, value=a))
+        return node
+
+
+def norm(e):
+    """canonical spelling + keyword normalisation (on a private copy)."""
+    n = _NormCalls().visit(canon(e))
+    ast.fix_missing_locations(n)
+    return n
+
+
+def xn(fi, e, here=None, **kw):
+    return norm(expand(fi, e, here, **kw))
+
+
+def xt(fi, e, here=None, **kw):
+    """canonical text of the expanded expression."""
+    return u(xn(fi, e, here, **kw))
+
+
+def closed_over(node, scope):
+    """`node` is a pure function (in the sense of _pure) of the names in
+    `scope` and of module-level objects only: a different function of the
+    same inputs in an already located role."""
+    if not _pure(node):
+        return False
+    bound = _comp_bound(node)
+    for x in ast.walk(node):
+        if isinstance(x, ast.Name) and x.id not in scope and x.id not in _NEUTRAL and x.id not in _GLOBALS and x.id not in bound:
+            return False
+    return True
+
+
+def classify(node, patterns, scope):
+    """match.classify with the MPI layer's purity: ('match', binds) /
+    ('near', dist, pattern) for a pure function of the names in `scope` (and
+    mpi.size()/mpi.rank()/constants) / ('far', ...) otherwise."""
+    v = _classify(node, patterns)
+    if v[0] == 'match':
+        return v
+    return ('near' if closed_over(norm(node), set(scope)) else 'far', v[1], v[2])
+
+
+def path_atoms(fi, stmt):
+    """Atomic conditions known to hold whenever `stmt` executes: the
+    conjuncts of every branch assumption that dominates it in the CFG
+    (nested ifs, both branch orders, guard clauses with early exit)."""
+    out = []
+    for a in fi.cfg.dom.get(stmt, ()):
+        if isinstance(a, Assume):
+            test = a.test
+            if any(isinstance(x, ast.Name) for x in ([test] + (test.values if isinstance(test, ast.BoolOp) else []) +
+                                                     ([test.operand] if isinstance(test, ast.UnaryOp) else []))):
+                test = expand(fi, test, a.owner)       # named conditions (`i_own_it = mpi.rank() == owner`)
+            cj = conjuncts(test, a.polarity)
+            for c in (cj or []):
+                out.append((c, a.owner))
+    return out
+
+
+def atom_rel(fi, c, a, b, owner):
+    """relation R such that the atom asserts `a R b` (a, b canonical
+    expanded texts), or None if the atom does not relate a and b."""
+    if not isinstance(c, Cmp) or c.rel not in _SWAP:
+        return None
+    l, r = xt(fi, c.lhs, owner), xt(fi, c.rhs, owner)
+    if (l, r) == (a, b):
+        return c.rel
+    if (l, r) == (b, a):
+        return _SWAP[c.rel]
+    return None
+
+
+def int_range(fi, c, a, owner):
+    """For an atom comparing the integer expression `a` with an integer
+    constant: the (lo, hi) interval it asserts (None = unbounded); '!=' k is
+    returned as ('ne', k).  None if the atom is something else."""
+    if not isinstance(c, Cmp) or c.rel not in _SWAP:
+        return None
+    l, r = c.lhs, c.rhs
+    rel = c.rel
+    if isinstance(const_value(l), int) and not isinstance(const_value(l), bool):
+        l, r, rel = r, l, _SWAP[rel]
+    k = const_value(r)
+    if not isinstance(k, int) or isinstance(k, bool) or xt(fi, l, owner) != a:
+        return None
+    return {'<': (None, k - 1), '<=': (None, k), '>': (k + 1, None), '>=': (k, None), '==': (k, k), '!=': ('ne', k)}[rel]
+
+
+def _permits(rng, k):
+    """does the interval / inequality returned by int_range admit the value k"""
+    if rng[0] == 'ne':
+        return rng[1] != k
+    return (rng[0] is None or rng[0] <= k) and (rng[1] is None or k <= rng[1])
+
+
+def is_size(fi, e, here=None):
+    return e is not None and xt(fi, e, here) == 'mpi.size()'
+
+
+def is_rank_range(fi, e, here=None):
+    return e is not None and xt(fi, e, here) in ('range(mpi.size())', 'range(0, mpi.size())', 'range(0, mpi.size(), 1)')
+
+
+def enclosing(mod, node, kinds, stop=None):
+    p = mod.parent.get(node)
+    while p is not None and p is not stop:
+        if isinstance(p, kinds):
+            return p
+        p = mod.parent.get(p)
+    return None
+
+
+def inside(mod, node, anc):
+    p = node
+    while p is not None:
+        if p is anc:
+            return True
+        p = mod.parent.get(p)
+    return False
+
+
+def arg(call, pos, name):
+    """argument of a call by position or keyword."""
+    if call is None:
+        return None
+    if len(call.args) > pos and not any(isinstance(a, ast.Starred) for a in call.args[:pos + 1]):
+        return call.args[pos]
+    return kwarg(call, name)
+
+
+def value_call(fi, e, here=None):
+    """(call, statement) the expression denotes: the expression itself, or
+    the call at the end of a chain of single reaching definitions of a Name;
+    (None, None) otherwise."""
+    here = here if here is not None else fi.stmt(e)
+    seen = 0
+    while isinstance(e, ast.Name) and seen < 6:
+        defs = fi.rd.defs_at(here, e.id)
+        if len(defs) != 1:
+            return None, None
+        site = next(iter(defs))
+        if site in ('PARAM', 'UNBOUND'):
+            return None, None
+        v = fi.def_value(site, e.id)
+        if v is None:
+            return None, None
+        e, here, seen = v, site, seen + 1
+    return (e, here) if isinstance(e, ast.Call) else (None, None)
+
+
+def rank_loops(fi, fn):
+    """(node, loop variable name) for every for-loop / comprehension
+    generator over range(mpi.size())."""
+    out = []
+    for n in walk_local(fn):
+        if isinstance(n, ast.For) and isinstance(n.target, ast.Name) and is_rank_range(fi, n.iter, n):
+            out.append((n, n.target.id))
+        if isinstance(n, (ast.ListComp, ast.GeneratorExp, ast.SetComp)):
+            for g in n.generators:
+                if isinstance(g.target, ast.Name) and is_rank_range(fi, g.iter, fi.stmt(n)):
+                    out.append((n, g.target.id))
+    return out
+
+
+def pair_binders(mod, fn):
+    """Every place where the elements of a sequence are unpacked into exactly
+    two names: `for a, b in S` (also nested in enumerate: `for i, (a, b) in
+    enumerate(S)`), comprehension generators, and `for p in S: a, b = p`.
+    Returns [(scope node, (a, b), iterable expr)]."""
+    out = []
+
+    def two(t):
+        return isinstance(t, (ast.Tuple, ast.List)) and len(t.elts) == 2 and all(isinstance(x, ast.Name) for x in t.elts)
+
+    def binder(target, it, node):
+        if two(target):
+            if isinstance(it, ast.Call) and call_name(it) in ('enumerate', 'zip'):
+                return
+            out.append((node, (target.elts[0].id, target.elts[1].id), it))
+        elif isinstance(target, (ast.Tuple, ast.List)) and len(target.elts) == 2 and two(target.elts[1]) and \
+                isinstance(it, ast.Call) and call_name(it) == 'enumerate' and it.args:
+            out.append((node, (target.elts[1].elts[0].id, target.elts[1].elts[1].id), it.args[0]))
+        elif isinstance(target, ast.Name) and isinstance(node, ast.For):
+            for s in node.body:
+                if isinstance(s, ast.Assign) and len(s.targets) == 1 and two(s.targets[0]) and \
+                        isinstance(s.value, ast.Name) and s.value.id == target.id:
+                    out.append((node, (s.targets[0].elts[0].id, s.targets[0].elts[1].id), it))
+    for n in walk_local(fn):
+        if isinstance(n, ast.For):
+            binder(n.target, n.iter, n)
+        if isinstance(n, (ast.ListComp, ast.GeneratorExp, ast.SetComp)):
+            for g in n.generators:
+                binder(g.target, g.iter, n)
+    return out
+
+
+def collected(fi, fn, e, here):
+    """The elements gathered into the list an expression denotes:
+    `[elt for ... ]` or `L = []` filled by `L.append(elt)`.
+    Returns [(elt, scope node)] (scope = comprehension / append statement)."""
+    mod = fi.mod
+    if isinstance(e, ast.ListComp):
+        return [(e.elt, e)]
+    if not isinstance(e, ast.Name):
+        return []
+    out = []
+    for site in fi.rd.defs_at(here, e.id):
+        v = fi.def_value(site, e.id) if site not in ('PARAM', 'UNBOUND') else None
+        if isinstance(v, ast.ListComp):
+            out.append((v.elt, v))
+    for c in calls_in(fn):
+        if isinstance(c.func, ast.Attribute) and c.func.attr == 'append' and isinstance(c.func.value, ast.Name) and \
+                c.func.value.id == e.id and len(c.args) == 1:
+            out.append((c.args[0], c))
+    return out
 
 
 def is_mpi_mode_test(t):
-    txt = u(t)
-    return txt in ('mpi_mode', 'mpi.size() > 1', 'mpi.size() != 1', 'not mpi.size() == 1')
+    """the test selects the MPI arm: the flag itself, or a world size > 1."""
+    if isinstance(t, ast.Name) and t.id == 'mpi_mode':
+        return True
+    cj = conjuncts(t, True)
+    if cj and len(cj) == 1 and isinstance(cj[0], Cmp) and cj[0].rel in _SWAP:
+        c = cj[0]
+        l, r, rel = c.lhs, c.rhs, c.rel
+        if const_value(l) is not None:
+            l, r, rel = r, l, _SWAP[rel]
+        return u(l) == 'mpi.size()' and (rel, const_value(r)) in (('>', 1), ('!=', 1), ('>=', 2))
+    return False
+
+
+def _ctrl_text(ctrl):
+    """canonical text of a loop condition (it is part of the construct key of
+    a finding): a conjunction of orderings is written with `<` / `<=` only,
+    negations pushed inwards, conjuncts in a fixed order."""
+    cj = conjuncts(ctrl, True) if not isinstance(ctrl, ast.Call) else None
+    if cj and all(isinstance(c, Cmp) and c.as_less() is not None for c in cj):
+        parts = []
+        for c in cj:
+            small, strict, big = c.as_less()
+            parts.append('%s %s %s' % (u(small), '<' if strict else '<=', u(big)))
+        return ' and '.join(sorted(parts, reverse=True))
+    return u(ctrl)
 
 
 def d1_matching(ck, spmd):
@@ -104,17 +526,53 @@ def d1_matching(ck, spmd):
                     if all(isinstance(x, ast.Assign) and isinstance(x.value, ast.IfExp) and is_mpi_mode_test(x.value.test) and
                            not spmd.expr_nonuniform(mod, fn, x.value.body, nu - set(target_names(s.targets[0])), cls) for x in other):
                         nu -= set(target_names(s.targets[0]))
-        all_events = spmd.events(mod, fn, fn.body)
+        helpers = {h.name: h for h in fn.body if isinstance(h, ast.FunctionDef)}
+
+        def events(node, _spmd=spmd, _mod=mod, _fn=fn, _helpers=helpers, _cls=cls):
+            """collective events of a block; a call of a helper defined
+            inside this function, or of a function of the same module that is
+            not in the uniformity table (an extracted helper; reported as
+            incomplete below), contributes the helper's own events."""
+            ev = _spmd.events(_mod, _fn, node)
+            for n0 in (node if isinstance(node, list) else [node]):
+                for c in ast.walk(n0):
+                    if not isinstance(c, ast.Call):
+                        continue
+                    if isinstance(c.func, ast.Name) and c.func.id in _helpers and not inside(_mod, c, _helpers[c.func.id]):
+                        ev = ev + _spmd.events(_mod, _fn, _helpers[c.func.id].body)
+                        continue
+                    t = _spmd.res.resolve_call(_mod, c, _cls)
+                    if t is not None and t.kind == 'func' and t.rel == _mod.rel and (t.rel, t.qual) not in LOCAL_PARAMS and \
+                            (t.rel, t.qual) not in WRAPPERS and _spmd.has_coll.get((t.rel, t.qual)) and (t.qual, '-') in ev:
+                        k = ev.index((t.qual, '-'))
+                        ev = ev[:k] + _spmd.events(_mod, _mod.functions[t.qual], _mod.functions[t.qual].body) + ev[k + 1:]
+            return ev
+        all_events = events(fn.body)
         n_sites += len(all_events)
         if not all_events:
             ck.ok(rule, mod, fn, '%s: no collectives' % q, 'nothing to match')
             continue
-        # (i) divergent if
-        for node in walk_local(fn):
+        # (i) divergent if - in the function and in the helpers defined inside
+        # it (a helper parameter is rank-local iff some call passes a
+        # rank-local argument; closure variables keep their taint)
+        scan = [(n0, nu) for n0 in walk_local(fn)]
+        for h in helpers.values():
+            nu_h = set(nu)
+            for c in walk_local(fn):
+                if isinstance(c, ast.Call) and isinstance(c.func, ast.Name) and c.func.id == h.name:
+                    for pn, a in zip(params(h), c.args):
+                        if spmd.expr_nonuniform(mod, fn, a, nu, cls):
+                            nu_h.add(pn)
+                    for k in c.keywords:
+                        if k.arg and spmd.expr_nonuniform(mod, fn, k.value, nu, cls):
+                            nu_h.add(k.arg)
+            nu_h = spmd.nonuniform_names(mod, h, sorted(nu_h))
+            scan += [(n0, nu_h) for n0 in walk_local(h)]
+        for node, nun in scan:
             if isinstance(node, ast.If):
-                div = spmd.expr_nonuniform(mod, fn, node.test, nu, cls)
-                eb = spmd.events(mod, fn, node.body)
-                ee = spmd.events(mod, fn, node.orelse)
+                div = spmd.expr_nonuniform(mod, fn, node.test, nun, cls)
+                eb = events(node.body)
+                ee = events(node.orelse)
                 if not eb and not ee:
                     continue
                 if not div:
@@ -126,196 +584,859 @@ def d1_matching(ck, spmd):
                          'sequence (%s vs %s): ranks that take different arms wait for each other forever (deadlock) or '
                          'exchange mismatched messages' % (u(node.test)[:80], eb, ee))
             if isinstance(node, ast.IfExp):
-                if spmd.expr_nonuniform(mod, fn, node.test, nu, cls):
-                    eb = spmd.events(mod, fn, node.body)
-                    ee = spmd.events(mod, fn, node.orelse)
+                if spmd.expr_nonuniform(mod, fn, node.test, nun, cls):
+                    eb = events(node.body)
+                    ee = events(node.orelse)
                     if eb or ee:
                         ck.check(eb == ee, rule, mod, node, q, u(node)[:120], 'same collectives in both arms',
                                  'collective inside one arm of a rank-divergent conditional expression')
             if isinstance(node, (ast.For, ast.While)):
-                ev = spmd.events(mod, fn, node.body)
+                ev = events(node.body)
                 if not ev:
                     continue
                 ctrl = node.iter if isinstance(node, ast.For) else node.test
-                div = spmd.expr_nonuniform(mod, fn, ctrl, nu, cls)
-                ck.check(not div, rule + '.loops', mod, node, q, '%s %s: collectives %s' % ('for' if isinstance(node, ast.For) else 'while', u(ctrl)[:80], ev[:4]),
+                div = spmd.expr_nonuniform(mod, fn, ctrl, nun, cls)
+                ck.check(not div, rule + '.loops', mod, node, q, '%s %s: collectives %s' % ('for' if isinstance(node, ast.For) else 'while', _ctrl_text(ctrl)[:80], ev[:4]),
                          'loop containing collectives has a rank-uniform trip count',
                          'the loop controlled by `%s` contains collectives %s but its trip count can differ between ranks: '
                          'some ranks leave the loop while others still wait in a collective' % (u(ctrl)[:80], ev[:3]))
-        # (ii) early return under divergent condition before a later collective
+        # (ii) early return under divergent condition before a later collective:
+        # the ranks that do NOT return go on (through the other branch of the
+        # divergent test) to a collective outside that if-statement
         fi = finfo(mod, fn)
+
+        def has_coll(st, _mod=mod, _cls=cls):
+            for e in header_exprs(st):
+                for c in walk_expr(e):
+                    if isinstance(c, ast.Call):
+                        if collective_name(c):
+                            return True
+                        t = spmd.res.resolve_call(_mod, c, _cls)
+                        if t is not None and t.kind == 'func' and spmd.has_coll.get((t.rel, t.qual)):
+                            return True
+            return False
         for r in [x for x in walk_local(fn) if isinstance(x, ast.Return)]:
-            p = mod.parent.get(r)
-            divergent = False
-            while p is not None and p is not fn:
-                if isinstance(p, ast.If) and spmd.expr_nonuniform(mod, fn, p.test, nu, cls):
-                    divergent = True
-                p = mod.parent.get(p)
-            if not divergent:
-                continue
-            later = [c for c in walk_local(fn) if isinstance(c, ast.Call) and (collective_name(c) or False)
-                     and getattr(c, 'lineno', 0) > getattr(r, 'lineno', 0)]
-            ck.check(not later, rule + '.early-return', mod, r, q, u(r)[:80],
-                     'no collective follows this rank-divergent return',
-                     'a rank can return here while the others go on to the collective at L%s' % (later[0].lineno if later else '?'))
+            for a in fi.cfg.dom.get(r, ()):
+                if not (isinstance(a, Assume) and spmd.expr_nonuniform(mod, fn, a.test, nu, cls)):
+                    continue
+                opp = [x for x in fi.cfg.succ.get(a.owner, []) if isinstance(x, Assume) and x is not a]
+                later = [st for st in fi.cfg.nodes if st not in (ENTRY, EXIT) and not isinstance(st, Assume) and not inside(mod, st, a.owner)
+                         and has_coll(st) and any(fi.cfg.reachable(o, st) for o in opp)]
+                ck.check(not later, rule + '.early-return', mod, r, q, u(r)[:80],
+                         'no collective follows this rank-divergent return',
+                         'a rank can return here (under `%s`) while the others go on to the collective at L%s' % (u(a.test)[:60], later[0].lineno if later else '?'))
     ck.floor(rule, n_sites, 25, 'collective events (direct and through package functions)')
+    # completeness of the uniformity table: a function that contains collectives
+    # (directly or through package functions) and is neither analysed above nor a
+    # known thin wrapper has not been checked
+    for (rel, q), has in sorted(spmd.has_coll.items()):
+        if has and (rel, q) not in LOCAL_PARAMS and (rel, q) not in WRAPPERS and rel in (OPS, IO, KC, KM, HY, CU, APP) and \
+                not ('.<locals>.' in q and q.count('.<locals>.') == 1 and (rel, q.split('.<locals>.')[0]) in LOCAL_PARAMS):
+            ck.missing(rule, 'function %s::%s issues collectives but is not in the uniformity table (new or extracted helper): its rank-local '
+                             'parameters are unknown, collective matching inside it is not decided' % (rel, q))
+
+
+def _decide(ck, v, rule, mod, node, fn_name, construct, ok, bad):
+    return ck.decide(v, rule, mod, node, fn_name, construct, ok, bad)
 
 
 def d2_roots(ck):
+    """Owner/root agreement.  Everything is located by role: the buffer is
+    the first argument of the Bcast, its fills are the definitions that reach
+    the Bcast, the side of a fill (owner / receiver) is the relation between
+    mpi.rank() and the root in the path condition of the fill."""
     rule = 'C14.D2.owner-root'
     mod = ck.repo.mod(OPS)
     fn = mod.func('distribute_frame')
     ck.analysed(mod, fn)
+    fi = finfo(mod, fn)
+    F = 'distribute_frame'
+    if len(params(fn)) < 3:
+        ck.missing(rule, 'distribute_frame(data, world_index, owner_rank): parameters not found')
+    else:
+        _d2_distribute(ck, rule, mod, fn, fi, F)
+    _d2_assemble(ck, rule + '.reassembly', mod)
+    _d2_assemble_ragged(ck, rule + '.reassembly', mod)
+
+
+def _d2_distribute(ck, rule, mod, fn, fi, F):
     data, widx, owner = params(fn)[:3]
-    bc = [c for c in calls_in(fn) if collective_name(c) == 'Bcast']
-    ok = len(bc) == 1 and u(kwarg(bc[0], 'root')) == owner and u(bc[0].args[0]) == 'frame' and finfo(mod, fn).stmt(bc[0]) in fn.body
-    ck.check(ok, rule, mod, bc[0] if bc else fn, 'distribute_frame', u(bc[0]) if bc else 'Bcast',
-             'one unconditional Bcast of the frame buffer rooted at the owner', 'distribute_frame must Bcast(frame, root=owner_rank) unconditionally')
-    fills = [n for n in walk_local(fn) if isinstance(n, ast.If) and 'mpi.rank()' in u(n.test)]
-    for n in fills:
-        okf = u(n.test) in ('mpi.rank() == %s' % owner, '%s == mpi.rank()' % owner)
-        src = [u(s.value) for s in n.body if isinstance(s, ast.Assign) and u(s.targets[0]) == 'frame']
-        rcv = [u(s.value) for s in n.orelse if isinstance(s, ast.Assign) and u(s.targets[0]) == 'frame']
-        okf = okf and len(src) == 1 and src[0] in ('%s[%s]' % (data, widx), '%s[%s].xyz' % (data, widx)) and len(rcv) == 1 and rcv[0].startswith('np.empty_like(')
-        ck.check(okf, rule, mod, n, 'distribute_frame', 'if %s: frame = %s else: frame = %s' % (u(n.test), src, rcv),
-                 'the rank that fills the buffer with data[world_index] is the broadcast root; the others allocate a receive buffer of the same shape',
-                 'the rank filling the buffer (`%s`) must be the Bcast root `%s` and the frame sent must be data[world_index]' % (u(n.test), owner))
-    ck.floor(rule, len(fills), 2, 'buffer-filling branches in distribute_frame')
-    g = [n for n in fn.body if isinstance(n, ast.If) and any(isinstance(x, ast.Raise) for x in n.body)]
-    ck.check(bool(g) and u(g[0].test) == C('%s >= mpi.size()' % owner), rule + '.range', mod, g[0] if g else fn, 'distribute_frame', u(g[0].test) if g else '?',
-             'an owner outside the world is rejected on every rank (uniform argument)', 'owner_rank >= mpi.size() must raise')
-    # reassembly
+    colls = [c for c in calls_in(fn) if collective_name(c)]
+    bc = [c for c in colls if collective_name(c) == 'Bcast']
+    if len(bc) != 1:
+        if not colls:
+            ck.bad(rule, mod, fn, F, 'Bcast', 'distribute_frame issues no broadcast at all: the frame never leaves its owner')
+        else:
+            ck.missing(rule, 'exactly one mpi.comm.Bcast in distribute_frame (found %d; collectives: %s)' % (len(bc), [collective_name(c) for c in colls]))
+        return
+    bc = bc[0]
+    bst = fi.stmt(bc)
+    root, buf = arg(bc, 1, 'root'), arg(bc, 0, 'buf')
+    is_param = lambda nm, at: fi.rd.defs_at(at, nm) == {'PARAM'}
+    if root is None:
+        ck.bad(rule, mod, bc, F, u(bc), 'Bcast without root= broadcasts from rank 0, not from the owner of the frame')
+    elif xt(fi, root, bst) == owner and is_param(owner, bst):
+        ck.ok(rule, mod, bc, u(bc), 'the Bcast is rooted at the owner rank')
+    else:
+        v = ('near', 1, 'root=%s' % owner) if closed_over(xn(fi, root, bst), {data, widx, owner}) else ('far', 1, None)
+        _decide(ck, v, rule, mod, bc, F, u(bc), '', 'distribute_frame must Bcast(frame, root=owner_rank): the root must be the rank that owns the frame')
+    rets = returns_of(fn)
+    ck.check(bool(rets) and all(fi.cfg.dominates(bst, r) for r in rets), rule, mod, bc, F, 'unconditional: ' + u(bc),
+             'every path to a return passes through the Bcast', 'the Bcast of the frame buffer must be executed on every path (by every rank, for arrays and trajectories alike)')
+    if not isinstance(buf, ast.Name):
+        ck.missing(rule, 'the Bcast buffer is not a plain name: %s' % u(bc))
+        return
+    B = buf.id
+    n_fill = n_owner = 0
+    for site in sorted(fi.rd.defs_at(bst, B), key=lambda s: getattr(s, 'lineno', 0)):
+        if site in ('PARAM', 'UNBOUND'):
+            ck.missing(rule, 'the broadcast buffer `%s` may be %s at the Bcast' % (B, site))
+            continue
+        v = fi.def_value(site, B)
+        if v is None:
+            ck.missing(rule, 'definition of the broadcast buffer not understood: %s' % u(site)[:100])
+            continue
+        n_fill += 1
+        atoms = path_atoms(fi, site)
+        side = None
+        other = None
+        for c, own in atoms:
+            if not isinstance(c, Cmp):
+                continue
+            l, r = xt(fi, c.lhs, own), xt(fi, c.rhs, own)
+            if 'mpi.rank()' not in (l, r):
+                continue
+            o = c.rhs if l == 'mpi.rank()' else c.lhs
+            other = (o, own, c)
+            if xt(fi, o, own) == owner and is_param(owner, own):
+                side = {'==': 'owner', '!=': 'receiver'}.get(c.rel, 'unknown')
+            else:
+                side = 'foreign'
+        xyz = [pol for c, own in atoms if isinstance(c, tuple) and c[0] == 'expr' and u(c[1]) in ("hasattr(%s, 'xyz')" % data,) for pol in [c[2]]]
+        val = xn(fi, v, site)
+        desc = '%s  [when %s]' % (u(site), ' and '.join(repr(c) if isinstance(c, Cmp) else ('' if c[2] else 'not ') + u(c[1]) for c, _ in atoms) or 'always')
+        send = ['%s[%s]' % (data, widx), '%s[%s].xyz' % (data, widx), '%s[%s].copy()' % (data, widx), '%s[%s].xyz.copy()' % (data, widx),
+                'np.ascontiguousarray(%s[%s])' % (data, widx), 'np.ascontiguousarray(%s[%s].xyz)' % (data, widx)]
+        recv = [f.replace('D', data) for f in (
+            'np.empty_like(D[0])', 'np.empty_like(D[0].xyz)', 'np.zeros_like(D[0])', 'np.zeros_like(D[0].xyz)',
+            'np.empty(D[0].shape, dtype=D.dtype)', 'np.empty(D.shape[1:], dtype=D.dtype)', 'np.empty(D[0].xyz.shape, dtype=D[0].xyz.dtype)')]
+        is_alloc = isinstance(val, ast.Call) and (call_name(val) or '') in ('np.empty_like', 'np.zeros_like', 'np.empty', 'np.zeros')
+        if side == 'foreign':
+            o, own, c = other
+            v2 = ('near', 1, 'mpi.rank() == %s' % owner) if closed_over(xn(fi, o, own), {data, widx, owner}) else ('far', 1, None)
+            _decide(ck, v2, rule, mod, site, F, desc, '', 'the buffer is filled under the rank test `%r`, but the Bcast root is `%s`: '
+                    'the rank that fills the buffer must be the broadcast root' % (c, owner))
+            continue
+        if side == 'unknown':
+            ck.missing(rule, 'rank test of a buffer fill not understood: %s' % desc[:160])
+            continue
+        if side is None:
+            if is_alloc:
+                side = 'receiver'       # default receive buffer, overwritten on the owner
+            elif _classify(val, send[:2])[0] == 'match':
+                ck.bad(rule, mod, site, F, desc, 'the buffer is bound to %s[%s] on EVERY rank (no `mpi.rank() == %s` guard): non-owner ranks index their own data '
+                       'with the owner\'s position and the Bcast then overwrites their local frame in place' % (data, widx, owner))
+                continue
+            else:
+                ck.missing(rule, 'buffer definition outside any rank test not understood: %s' % desc[:160])
+                continue
+        if side == 'owner':
+            n_owner += 1
+            vv = classify(val, send, {data, widx, owner})
+            ok = _decide(ck, vv, rule, mod, site, F, desc, 'the rank that fills the buffer with data[world_index] is the broadcast root',
+                         'on the owner (`mpi.rank() == %s`) the frame sent must be %s[%s] (or its .xyz)' % (owner, data, widx))
+        else:
+            vv = classify(val, recv, {data, widx, owner})
+            ok = _decide(ck, vv, rule, mod, site, F, desc, 'the other ranks allocate a receive buffer of the shape of one frame',
+                         'on the non-owner ranks the buffer must be a fresh receive buffer shaped like one frame (np.empty_like(%s[0]))' % data)
+        if ok and xyz:
+            ck.check(('.xyz' in u(val)) == xyz[-1], rule, mod, site, F, 'trajectory/array arm: ' + desc, 'coordinates (.xyz) are sent/received exactly for trajectories',
+                     'the %s arm must %suse the .xyz coordinates: sender and receivers otherwise disagree on the buffer shape' % (
+                         'trajectory' if xyz[-1] else 'array', '' if xyz[-1] else 'not '))
+    ck.floor(rule, n_fill, 2, 'definitions of the broadcast buffer reaching the Bcast in distribute_frame')
+    if n_fill and not n_owner:
+        ck.missing(rule, 'no fill of the broadcast buffer under `mpi.rank() == %s` found' % owner)
+    # an owner outside the world is rejected (on every rank: uniform argument)
+    rr = rule + '.range'
+    found = None
+    mentions = []
+    for g in walk_local(fn):
+        if not isinstance(g, ast.Raise):
+            continue
+        gst = fi.stmt(g)
+        for c, own in path_atoms(fi, gst):
+            rel = atom_rel(fi, c, owner, 'mpi.size()', own)
+            if rel is not None:
+                found = (rel, own, c)
+            elif isinstance(c, Cmp) and owner in names_loaded(c.lhs) | names_loaded(c.rhs):
+                mentions.append(c)
+    if found is not None:
+        rel, own, c = found
+        ck.check(rel == '>=' and fi.cfg.dominates(own, bst), rr, mod, own, F, u(own.test),
+                 'an owner outside the world is rejected on every rank before the broadcast (uniform argument)',
+                 'owner_rank >= mpi.size() must raise before the Bcast; found the test `%r`' % c)
+    elif mentions:
+        ck.missing(rr, 'range test on the owner not understood: %r' % mentions[0])
+    else:
+        ck.bad(rr, mod, fn, F, 'raise unless %s < mpi.size()' % owner, 'no test rejects an owner rank outside the world: owner_rank >= mpi.size() must raise '
+               '(a Bcast with an invalid root aborts or hangs the job)')
+
+
+def _stripe_stores(fi, mod, fn, loop, var):
+    """Subscript stores inside `loop` (a for over the ranks, variable `var`):
+    [(stmt, target, kind)] with kind 'stripe' for X[var::mpi.size()],
+    'row' for X[var], 'other' otherwise."""
+    out = []
+    for st, t in subscript_stores(loop):
+        if not isinstance(st, ast.Assign):
+            continue
+        sl = t.slice
+        if isinstance(sl, ast.Slice):
+            kind = 'stripe' if (sl.upper is None and sl.lower is not None and sl.step is not None and
+                                xt(fi, sl.lower, st) == var and is_size(fi, sl.step, st)) else 'other'
+        else:
+            kind = 'row' if xt(fi, sl, st) == var else 'other'
+        out.append((st, t, kind))
+    return out
+
+
+def _bcast_of(fi, e, here):
+    """the mpi.comm.bcast call an expression denotes (directly or through a
+    name bound once), with its statement."""
+    c, st = value_call(fi, e, here)
+    if c is not None and collective_name(c) == 'bcast':
+        return c, st
+    return None, None
+
+
+def _d2_assemble(ck, rule, mod):
     fa = mod.func('assemble_striped_array')
     ck.analysed(mod, fa)
-    loops = [l for l in walk_local(fa) if isinstance(l, ast.For)]
-    ok = len(loops) == 1 and u(loops[0].iter) == 'range(mpi.size())'
-    i = u(loops[0].target) if loops else '?'
-    st = [s for s in walk_local(fa) if isinstance(s, ast.Assign) and isinstance(s.targets[0], ast.Subscript) and u(s.targets[0].value) == 'global_arr']
-    ok = ok and len(st) == 1 and u(st[0].targets[0].slice) == '%s::mpi.size()' % i and isinstance(st[0].value, ast.Call) and \
-        collective_name(st[0].value) == 'bcast' and u(kwarg(st[0].value, 'root')) == i and u(st[0].value.args[0]) == params(fa)[0]
-    ck.check(ok, rule + '.reassembly', mod, st[0] if st else fa, 'assemble_striped_array', u(st[0]) if st else '?',
-             'stripe i of the global array receives the local array of rank i (root = stripe offset)',
-             'global_arr[i::size] must receive bcast(local_arr, root=i) for i in range(size)')
+    fi = finfo(mod, fa)
+    F = 'assemble_striped_array'
+    P = params(fa)[0]
+    loops = [(l, v) for l, v in rank_loops(fi, fa) if isinstance(l, ast.For)]
+    bcs = [c for c in calls_in(fa) if collective_name(c) == 'bcast']
+    if len(loops) != 1 or not bcs:
+        ck.missing(rule, 'assemble_striped_array: one `for <i> in range(mpi.size())` with a bcast inside (loops: %d, bcasts: %d)' % (len(loops), len(bcs)))
+        return
+    loop, i = loops[0]
+    stores = [(st, t, k) for st, t, k in _stripe_stores(fi, mod, fa, loop, i)]
+    rets = returns_of(fa)
+    n = 0
+    for st, t, kind in stores:
+        c, cst = _bcast_of(fi, st.value, st)
+        if c is None:
+            continue
+        n += 1
+        root, obj = arg(c, 1, 'root'), arg(c, 0, 'obj')
+        if kind != 'stripe':
+            sl = t.slice
+            v = ('near', 1, '%s::mpi.size()' % i) if closed_over(xn(fi, sl.lower if isinstance(sl, ast.Slice) and sl.lower is not None else ast.Constant(value=0), st), {i}) and \
+                (not isinstance(sl, ast.Slice) or sl.step is None or closed_over(xn(fi, sl.step, st), {i})) else ('far', 1, None)
+            _decide(ck, v, rule, mod, st, F, u(st), '', 'the array broadcast by rank %s must be stored into the stripe [%s::mpi.size()] of the global array' % (i, i))
+            continue
+        okroot = root is not None and xt(fi, root, cst) == i
+        okobj = obj is not None and xt(fi, obj, cst) == P and inside(mod, cst, loop)
+        if okroot and okobj:
+            ck.ok(rule, mod, st, u(st), 'stripe i of the global array receives the local array of rank i (root = stripe offset)')
+        elif not okroot:
+            v = ('near', 1, 'root=%s' % i) if root is None or closed_over(xn(fi, root, cst), {i}) else ('far', 1, None)
+            _decide(ck, v, rule, mod, st, F, u(st), '', 'global_arr[i::size] must receive bcast(local_arr, root=i): the broadcast root must equal the stripe offset `%s`' % i)
+        else:
+            v = ('near', 1, P) if obj is not None and closed_over(xn(fi, obj, cst), {P, i}) else ('far', 1, None)
+            _decide(ck, v, rule, mod, st, F, u(st), '', 'every rank must broadcast its local array `%s` inside the loop over the ranks' % P)
+        # the filled array is what the function returns
+        G = u(t.value)
+        outs = [r for r in rets if not any(atom_rel(fi, c2, 'mpi.size()', '1', o2) == '==' for c2, o2 in path_atoms(fi, r))]
+        ck.check(bool(outs) and all(xt(fi, r.value, r) == G for r in outs), rule, mod, st, F, 'return %s' % G, 'the reassembled array is returned',
+                 'the array filled stripe by stripe (`%s`) must be the one returned when more than one rank runs' % G)
+    if not n:
+        ck.missing(rule, 'assemble_striped_array: no store of a bcast result into the global array inside the rank loop')
+
+
+def _d2_assemble_ragged(ck, rule, mod):
     fr = mod.func('assemble_striped_ragged_array')
     ck.analysed(mod, fr)
-    loops = [l for l in walk_local(fr) if isinstance(l, ast.For)]
-    ok = len(loops) == 1 and u(loops[0].iter) == 'range(mpi.size())'
-    r = u(loops[0].target) if loops else '?'
-    bc = [s for s in walk_local(fr) if isinstance(s, ast.Assign) and isinstance(s.value, ast.Call) and collective_name(s.value) == 'bcast']
-    ok = ok and len(bc) == 1 and u(kwarg(bc[0].value, 'root')) == r and u(bc[0].value.args[0]) == params(fr)[0] and bc[0] in loops[0].body
-    ck.check(ok, rule + '.reassembly', mod, bc[0] if bc else fr, 'assemble_striped_ragged_array', u(bc[0]) if bc else '?',
-             'each rank broadcasts its local array in turn, unconditionally inside the loop', 'rank_array = bcast(local_array, root=rank) for rank in range(size)')
-    ll = [s for s in walk_local(fr) if isinstance(s, ast.Assign) and u(s.targets[0]) == 'local_lengths']
-    ok = len(ll) == 1 and u(ll[0].value) == '%s[%s::mpi.size()]' % (params(fr)[1], r)
-    ck.check(ok, rule + '.reassembly', mod, ll[0] if ll else fr, 'assemble_striped_ragged_array', u(ll[0]) if ll else '?', 'lengths of rank r = global_lengths[r::size]', 'local lengths must be global_lengths[rank::size]')
-    st = [s for s in walk_local(fr) if isinstance(s, ast.Assign) and isinstance(s.targets[0], ast.Subscript) and u(s.targets[0].value) == 'global_ra']
-    sl = sorted(u(s.targets[0].slice) for s in st)
-    ck.check(sl == sorted(['%s::mpi.size()' % r, r]), rule + '.reassembly', mod, st[0] if st else fr, 'assemble_striped_ragged_array', '; '.join(u(s) for s in st),
-             'rows r, r+size, ... of the global ragged array receive rank r\'s rows', 'global_ra[rank::size] must receive the rows of rank `rank`')
+    fi = finfo(mod, fr)
+    F = 'assemble_striped_ragged_array'
+    if len(params(fr)) < 2:
+        ck.missing(rule, 'assemble_striped_ragged_array(local_array, global_lengths): parameters not found')
+        return
+    P, GL = params(fr)[:2]
+    loops = [(l, v) for l, v in rank_loops(fi, fr) if isinstance(l, ast.For)]
+    if len(loops) != 1:
+        ck.missing(rule, 'assemble_striped_ragged_array: exactly one `for <rank> in range(mpi.size())` (found %d)' % len(loops))
+        return
+    loop, r = loops[0]
+    bcs = [c for c in calls_in(loop) if collective_name(c) == 'bcast']
+    if len(bcs) != 1:
+        ck.missing(rule, 'assemble_striped_ragged_array: exactly one bcast inside the rank loop (found %d)' % len(bcs))
+        return
+    bc = bcs[0]
+    bst = fi.stmt(bc)
+    root, obj = arg(bc, 1, 'root'), arg(bc, 0, 'obj')
+    uncond = enclosing(mod, bst, (ast.If, ast.While, ast.For, ast.Try), stop=loop) is None and enclosing(mod, bc, (ast.IfExp, ast.BoolOp), stop=bst) is None
+    ok = root is not None and xt(fi, root, bst) == r and obj is not None and xt(fi, obj, bst) == P and uncond
+    if ok:
+        ck.ok(rule, mod, bst, u(bst), 'each rank broadcasts its local array in turn, unconditionally inside the loop')
+    else:
+        sc = {r, P, GL}
+        v = ('near', 1, 'mpi.comm.bcast(%s, root=%s)' % (P, r)) if (not uncond or root is None or obj is None or
+                                                                     (closed_over(xn(fi, root, bst), sc) and closed_over(xn(fi, obj, bst), sc))) else ('far', 1, None)
+        _decide(ck, v, rule, mod, bst, F, u(bst), '', 'rank_array = bcast(local_array, root=rank) must run unconditionally for every rank in range(size)')
+    if not (isinstance(bst, ast.Assign) and isinstance(bst.targets[0], ast.Name)):
+        ck.missing(rule, 'the result of the bcast is not bound to a name: %s' % u(bst)[:100])
+        return
+    RA = bst.targets[0].id
+    stripe_len = C('%s[%s::mpi.size()]' % (GL, r))
+    stores = [(st, t, k) for st, t, k in _stripe_stores(fi, mod, fr, loop, r)]
+    # which object do the stores fill?  the one whose flat data are returned
+    by_kind = {}
+    for st, t, k in stores:
+        by_kind.setdefault(k, []).append((st, t))
+    if not by_kind.get('stripe') and not by_kind.get('row'):
+        ck.missing(rule, 'no store global_ra[rank::size] / global_ra[rank] inside the rank loop')
+        return
+    for st, t in by_kind.get('other', []):
+        if RA in names_loaded(st.value) or any(RA in names_loaded(x) for x in [xn(fi, st.value, st)]):
+            sl = t.slice
+            parts = [x for x in ((sl.lower, sl.upper, sl.step) if isinstance(sl, ast.Slice) else (sl,)) if x is not None]
+            v = ('near', 1, '%s::mpi.size()' % r) if all(closed_over(xn(fi, x, st), {r}) for x in parts) else ('far', 1, None)
+            _decide(ck, v, rule, mod, st, F, u(st), '', 'rows r, r+size, ... of the global ragged array must receive rank r\'s rows (index `%s::mpi.size()`)' % r)
+    n = 0
+    guarded = False
+    for st, t in by_kind.get('stripe', []):
+        n += 1
+        val = xn(fi, st.value, st)
+        vv = classify(val, ['ra.RaggedArray(%s, lengths=%s)' % (RA, stripe_len)], {RA, GL, r, P})
+        _decide(ck, vv, rule, mod, st, F, u(st) + '  [value: %s]' % u(val), 'rows r, r+size, ... of the global ragged array receive rank r\'s rows, cut by global_lengths[r::size]',
+                'global_ra[rank::size] must receive RaggedArray(rank_array, lengths=global_lengths[rank::size]): the lengths of rank r are the stripe r of the global lengths')
+        # RaggedArray.__setitem__ cannot take a one-row RaggedArray through a slice: needs > 1 rows
+        rng = [int_range(fi, c, 'len(%s)' % stripe_len, o) for c, o in path_atoms(fi, st)]
+        rng = [x for x in rng if x is not None]
+        if any(x[0] not in (None, 'ne') and x[0] >= 2 for x in rng):
+            guarded = True
+            ck.ok(rule, mod, st, 'guard of ' + u(st), 'the slice store runs only when the rank owns more than one trajectory')
+        elif all(_permits(x, 1) for x in rng):
+            ck.bad(rule, mod, st, F, 'guard of ' + u(st),
+                   'the slice store global_ra[rank::size] = RaggedArray(...) is not guarded by len(global_lengths[rank::size]) > 1: for a rank that owns a '
+                   'single trajectory RaggedArray.__setitem__ cannot assign a one-row RaggedArray through a slice (ValueError/DataInvalid on every rank)')
+        else:
+            ck.missing(rule, 'guard of the slice store not understood: %s' % rng)
+    rows = by_kind.get('row', [])
+    for st, t in rows:
+        n += 1
+        ck.check(xt(fi, st.value, st) == RA, rule, mod, st, F, u(st), 'the single row of a rank that owns one trajectory is stored directly',
+                 'global_ra[rank] must receive the array broadcast by `rank` (%s)' % RA)
+        rng = [x for x in (int_range(fi, c, 'len(%s)' % stripe_len, o) for c, o in path_atoms(fi, st)) if x is not None]
+        if any(x in ((None, 1), (1, 1)) for x in rng):
+            ck.ok(rule, mod, st, 'guard of ' + u(st), 'runs only when the rank owns at most one trajectory')
+        elif all(_permits(x, 2) for x in rng):
+            ck.bad(rule, mod, st, F, 'guard of ' + u(st), 'the single-row store global_ra[rank] = rank_array must be limited to ranks that own one trajectory '
+                   '(len(global_lengths[rank::size]) <= 1); as it stands it also runs for ranks with several trajectories and overwrites row `rank` with the whole array of the rank')
+        else:
+            ck.missing(rule, 'guard of the single-row store not understood: %s' % rng)
+    if by_kind.get('stripe') and guarded and not rows:
+        ck.bad(rule, mod, by_kind['stripe'][0][0], F, 'single-trajectory case of ' + u(by_kind['stripe'][0][0]),
+               'no `global_ra[rank] = rank_array` for ranks that own exactly one trajectory: the slice assignment of a one-row RaggedArray fails, so the '
+               'special case is load-bearing (e.g. 3 trajectories on 2 ranks)')
+    # the filled object: a RaggedArray over the global lengths whose flat data are returned
+    Gs = {u(t.value) for k in ('stripe', 'row') for st, t in by_kind.get(k, [])}
+    if len(Gs) == 1:
+        G = next(iter(Gs))
+        gdefs = [s for s in assigns_to(fr, G) if isinstance(s, ast.Assign)]
+        if len(gdefs) == 1:
+            vv = classify(xn(fi, gdefs[0].value, gdefs[0]), ['ra.RaggedArray(__, lengths=%s)' % GL], {GL, P})
+            _decide(ck, vv, rule, mod, gdefs[0], F, u(gdefs[0]), 'the global ragged array is partitioned by the global lengths', 'the reassembly target must be a RaggedArray with lengths=%s' % GL)
+        rets = returns_of(fr)
+        ck.check(bool(rets) and all(G in names_loaded(xn(fi, x.value, x)) for x in rets), rule, mod, rets[0] if rets else fr, F, 'return ' + (u(rets[0].value) if rets else '?'),
+                 'the reassembled data are returned', 'the function must return the data of the reassembled array `%s`' % G)
+    else:
+        ck.missing(rule, 'stores of the rank loop fill different objects: %s' % sorted(Gs))
+    ck.floor(rule, n, 1, 'stores into the global ragged array inside the rank loop')
+
+
+def _pair_component(binders, mod, node, name):
+    """0 / 1 if `name` (used at `node`) is the first / second name of a
+    two-name unpacking whose scope contains node, else None."""
+    for scope, (a, b), it in binders:
+        if inside(mod, node, scope) and name in (a, b):
+            return 0 if name == a else 1
+    return None
 
 
 def d3_striping(ck):
+    """Striping convention.  A striping site is any slice whose step IS the
+    world size or whose offset IS the own rank (after expansion of
+    temporaries); the offset is classified by the role of its value."""
     rule = 'C14.D3.striping'
     n = 0
     for rel in (OPS, IO, KM, KC, CU, APP):
         mod = ck.repo.mod(rel)
         for q, fn in mod.functions.items():
+            fi = None
             for sub in walk_local(fn):
-                if not (isinstance(sub, ast.Subscript) and isinstance(sub.slice, ast.Slice) and sub.slice.step is not None):
+                if not (isinstance(sub, ast.Subscript) and isinstance(sub.slice, ast.Slice)):
                     continue
-                step = u(sub.slice.step)
-                fi = finfo(mod, fn)
-                sres = fi.resolve(sub.slice.step) if isinstance(sub.slice.step, ast.Name) else sub.slice.step
-                if u(sres) != 'mpi.size()':
+                sl = sub.slice
+                if sl.step is None and sl.lower is None:
+                    continue
+                fi = fi or finfo(mod, fn)
+                here = fi.stmt(sub)
+                if here is None:
+                    continue
+                step_is_size = sl.step is not None and is_size(fi, sl.step, here)
+                lo_is_rank = sl.lower is not None and xt(fi, sl.lower, here) == 'mpi.rank()'
+                if not step_is_size:
+                    if lo_is_rank and sl.step is not None:
+                        n += 1
+                        ck.analysed(mod, fn)
+                        v = ('near', 1, 'x[mpi.rank()::mpi.size()]') if closed_over(xn(fi, sl.step, here), set()) else ('far', 1, None)
+                        ck.decide(v, rule, mod, sub, q, u(sub), '', 'the stripe of the own rank must advance by the world size mpi.size(); found step `%s`' % u(sl.step))
                     continue
                 n += 1
                 ck.analysed(mod, fn)
-                lo = sub.slice.lower
-                lres = fi.resolve(lo) if isinstance(lo, ast.Name) else lo
-                ok = sub.slice.upper is None and lo is not None
-                why = ''
-                if ok:
-                    t = u(lres)
-                    if t == 'mpi.rank()':
-                        why = 'own stripe'
-                    elif isinstance(lo, ast.Name) and any(isinstance(l, ast.For) and u(l.target) == lo.id and u(l.iter) == 'range(mpi.size())'
-                                                         for l in walk_local(fn)):
+                lo = sl.lower
+                if sl.upper is not None or lo is None:
+                    ck.bad(rule, mod, sub, q, u(sub), 'striping must be x[r::mpi.size()] with an offset r and no stop; found `%s`' % u(sub.slice))
+                    continue
+                t = xn(fi, lo, here)
+                why = None
+                verdict = None
+                if lo_is_rank:
+                    why = 'own stripe'
+                elif isinstance(t, ast.BinOp) and isinstance(t.op, ast.Mod) and u(t.right) == 'mpi.size()':
+                    why = 'owner = trajectory id mod size'
+                elif isinstance(t, ast.Name):
+                    ranks = [v for l, v in rank_loops(fi, fn) if inside(mod, sub, l)]
+                    comp = _pair_component(pair_binders(mod, fn), mod, sub, t.id)
+                    if t.id in ranks:
                         why = 'stripe of loop rank'
-                    elif isinstance(lo, ast.Name) and any(isinstance(l, (ast.ListComp,)) and any(u(g.target) == lo.id and u(g.iter) == 'range(mpi.size())' for g in l.generators)
-                                                         for l in ast.walk(fn)):
-                        why = 'stripe of comprehension rank'
-                    elif isinstance(lo, ast.Name) and lo.id in names_loaded(ast.Module(body=[], type_ignores=[])) :
-                        why = ''
-                    elif t.replace(' ', '') in ('global_traj_id%num_procs', 'global_traj_id%mpi.size()'):
-                        why = 'owner = trajectory id mod size'
-                    elif isinstance(lo, ast.Name) and lo.id in ('rank',) and any(
-                            isinstance(l, ast.For) and isinstance(l.target, ast.Tuple) and lo.id in target_names(l.target) for l in walk_local(fn)):
+                    elif comp == 0:
                         why = 'owner rank of an (owner, index) pair'
-                    else:
-                        ok = False
-                ck.check(ok, rule, mod, sub, q, u(sub), 'round-robin stripe x[r::size] (%s)' % why,
-                         'striping must be x[r::mpi.size()] with r the rank / the loop rank / id %% size and no stop; found offset `%s`' % (u(lo) if lo is not None else 'None'))
+                    elif comp == 1:
+                        verdict = ('near', 1, 'x[<owner>::mpi.size()]')
+                        bad = 'the stripe offset `%s` is the SECOND component of an (owner_rank, local_index) pair: the owner rank is the first' % t.id
+                if why is None and verdict is None:
+                    verdict = ('near', 1, 'x[r::mpi.size()]') if closed_over(t, set()) else ('far', 1, None)
+                    bad = ('striping must be x[r::mpi.size()] with r the rank / the loop rank / id %% size and no stop; found offset `%s`' % u(lo))
+                if why is not None:
+                    ck.ok(rule, mod, sub, u(sub), 'round-robin stripe x[r::size] (%s)' % why)
+                else:
+                    ck.decide(verdict, rule, mod, sub, q, u(sub), '', bad)
     ck.floor(rule, n, 10, 'striping sites')
-    # local trajectory id = id // size
+    _d3_local_id(ck, rule + '.local-id')
+
+
+def _d3_local_id(ck, rule):
+    """ctr_ids_mpi: (global trajectory g, frame f) -> (g % size, position of
+    f in the concatenation of the owner's trajectories), the owner's local
+    trajectory number being g // size."""
     mod = ck.repo.mod(KM)
     fn = mod.func('ctr_ids_mpi')
-    lt = [s for s in walk_local(fn) if isinstance(s, ast.Assign) and u(s.targets[0]) == 'local_trj_id']
-    ok = len(lt) == 1 and u(lt[0].value).replace(' ', '') in ('int(global_traj_id/num_procs)', 'global_traj_id//num_procs')
-    ck.check(ok, rule + '.local-id', mod, lt[0] if lt else fn, 'ctr_ids_mpi', u(lt[0]) if lt else '?', 'position of trajectory g on its owner = g // size', 'local trajectory id must be global id // size')
-    mr = [s for s in walk_local(fn) if isinstance(s, ast.Assign) and u(s.targets[0]) == 'mpi_rank']
-    ok = len(mr) == 1 and u(mr[0].value) == 'global_traj_id % num_procs'
-    ck.check(ok, rule + '.local-id', mod, mr[0] if mr else fn, 'ctr_ids_mpi', u(mr[0]) if mr else '?', 'owner of trajectory g = g % size', 'owner must be global id % size')
-    np_ = [s for s in walk_local(fn) if isinstance(s, ast.Assign) and u(s.targets[0]) == 'num_procs']
-    ck.check(len(np_) == 1 and u(np_[0].value) == 'mpi.size()', rule + '.local-id', mod, np_[0] if np_ else fn, 'ctr_ids_mpi', u(np_[0]) if np_ else '?', 'size = mpi.size()', 'num_procs must be mpi.size()')
+    ck.analysed(mod, fn)
+    fi = finfo(mod, fn)
+    F = 'ctr_ids_mpi'
+    rets = returns_of(fn)
+    items = []
+    for r in rets:
+        items += collected(fi, fn, r.value, r)
+    items = [(e, node) for e, node in items if isinstance(e, ast.Tuple) and len(e.elts) == 2]
+    if not items:
+        ck.missing(rule, 'ctr_ids_mpi: no (owner, index) tuple collected into the returned list')
+        return
+    binders = pair_binders(mod, fn)
+    for e, node in items:
+        here = fi.stmt(node)
+        comps = [b for b in binders if inside(mod, node, b[0])]
+        if not comps:
+            ck.missing(rule, 'ctr_ids_mpi: the (trajectory, frame) pair feeding %s is not unpacked into two names' % u(e))
+            continue
+        g, f = comps[-1][1]
+        o = xn(fi, e.elts[0], here)
+        vv = classify(o, ['%s %% mpi.size()' % g], {g, f})
+        ck.decide(vv, rule, mod, node, F, 'owner: ' + u(o), 'owner of trajectory g = g % size', 'the owner rank of trajectory `%s` must be `%s %% mpi.size()`' % (g, g))
+        # local index: <ragged index table>[<local trajectory>][f]
+        c = e.elts[1]
+        seen = 0
+        while isinstance(c, ast.Name) and seen < 4:
+            d = fi.rd.defs_at(here, c.id)
+            site = next(iter(d)) if len(d) == 1 else None
+            v = fi.def_value(site, c.id) if site not in (None, 'PARAM', 'UNBOUND') else None
+            if v is None:
+                break
+            c, here, seen = v, site, seen + 1
+        if not (isinstance(c, ast.Subscript) and isinstance(c.value, ast.Subscript)):
+            ck.missing(rule, 'ctr_ids_mpi: local index is not <table>[<local trajectory>][<frame>]: %s' % u(c)[:100])
+            continue
+        ck.check(xt(fi, c.slice, here) == f, rule, mod, node, F, 'frame: ' + u(c), 'frame position inside the trajectory is the second component',
+                 'the frame looked up in the owner\'s table must be `%s`' % f)
+        lt = xn(fi, c.value.slice, here)
+        vv = classify(lt, ['int(%s / mpi.size())' % g, '%s // mpi.size()' % g, 'int(%s // mpi.size())' % g], {g, f})
+        ck.decide(vv, rule, mod, node, F, 'local trajectory: ' + u(lt), 'position of trajectory g on its owner = g // size', 'the local trajectory id must be `%s // mpi.size()`' % g)
+        # the table: positions 0..n-1 of the owner's concatenated frames, cut by the lengths of the trajectories the owner holds (lengths[o::size])
+        L = params(fn)[1] if len(params(fn)) > 1 else 'lengths'
+        tb = xn(fi, c.value.value, here)
+        v1 = _classify(tb, ['ra.RaggedArray(np.arange(sum(_T.lengths)), lengths=_T.lengths)', 'ra.RaggedArray(np.arange(_T.lengths.sum()), lengths=_T.lengths)'])
+        if v1[0] == 'match':
+            owned = ['ra.RaggedArray(np.arange(%s), lengths=%s)[np.arange(len(%s))[%s %% mpi.size()::mpi.size()]]' % (tot, L, L, g) for tot in ('sum(%s)' % L, '%s.sum()' % L)]
+            v1 = classify(v1[1]['_T'], owned, {g, f, L})
+        else:
+            v1 = ('near' if closed_over(tb, {g, f, L}) and v1[1] <= 3 else 'far', v1[1], v1[2])
+        ck.decide(v1, rule, mod, node, F, 'table: ' + u(tb)[:160], 'local positions are counted over the trajectories the owner holds (lengths[g % size::size])',
+                  'the local index table must number the frames of the trajectories owned by rank g %% size, i.e. be cut by %s[g %% size::size]' % L)
+
+
+def _in_message(mod, node):
+    """node sits inside a logging / formatting construct (its order there is
+    presentation, not data)."""
+    p = mod.parent.get(node)
+    while p is not None and not isinstance(p, ast.stmt):
+        if isinstance(p, ast.Call):
+            cn = call_name(p) or ''
+            if cn.split('.')[0] in ('logger', 'logging', 'log', 'print', 'warnings') or cn.endswith('.format'):
+                return True
+        if isinstance(p, ast.BinOp) and isinstance(p.op, ast.Mod) and isinstance(p.left, ast.Constant) and isinstance(p.left.value, str):
+            return True
+        if isinstance(p, ast.JoinedStr):
+            return True
+        p = mod.parent.get(p)
+    return isinstance(p, ast.Assert) and node is not p.test and not inside(mod, node, p.test)
+
+
+def _same(fi, a, b):
+    """two expressions denote the same value: same Name with the same
+    reaching definitions, or identical canonical text of constants/params."""
+    if isinstance(a, ast.Name) and isinstance(b, ast.Name):
+        return a.id == b.id and fi.rd.defs_at(fi.stmt(a), a.id) == fi.rd.defs_at(fi.stmt(b), b.id)
+    return False
 
 
 def d4_pairs(ck):
+    """(owner_rank, local_index) orientation at every producer and consumer."""
     rule = 'C14.D4.pair-orientation'
     mod = ck.repo.mod(OPS)
+    _d4_convert(ck, rule, mod)
+    _d4_randind(ck, rule, mod)
+    _d4_distribute_sites(ck, rule)
+    _d4_ctr_ids(ck, rule + '.consumers')
+    _d4_local_centres(ck, rule + '.consumers')
+
+
+def _d4_convert(ck, rule, mod):
     fn = mod.func('convert_local_indices')
     ck.analysed(mod, fn)
-    loops = [l for l in walk_local(fn) if isinstance(l, ast.For)]
-    ok = len(loops) == 1 and u(loops[0].target) == '(rank, local_fid)'
-    g = [s for s in walk_local(fn) if isinstance(s, ast.Assign) and u(s.targets[0]) == 'global_fid']
-    ok = ok and len(g) == 1 and u(g[0].value) == 'file_origin_ra[rank::mpi.size()].flatten()[local_fid]'
-    ck.check(ok, rule, mod, g[0] if g else fn, 'convert_local_indices', u(g[0]) if g else '?',
-             '(owner rank, local frame) -> frames of that rank\'s stripe, flattened, at the local position',
-             'convert_local_indices must unpack (rank, local_fid) and read file_origin_ra[rank::size].flatten()[local_fid]')
-    fo = [s for s in walk_local(fn) if isinstance(s, ast.Assign) and u(s.targets[0]) == 'file_origin_ra']
-    ck.check(len(fo) == 1 and u(fo[0].value) == 'ra.RaggedArray(global_indexing, lengths=global_lengths)', rule, mod, fo[0] if fo else fn, 'convert_local_indices', u(fo[0]) if fo else '?',
-             'global frame ids partitioned by trajectory lengths', 'the lookup table must be RaggedArray(arange(total), lengths=global_lengths)')
+    fi = finfo(mod, fn)
+    F = 'convert_local_indices'
+    if len(params(fn)) < 2:
+        ck.missing(rule, 'convert_local_indices(local_ctr_inds, global_lengths): parameters not found')
+        return
+    P, GL = params(fn)[:2]
+    items = []
+    for r in returns_of(fn):
+        items += collected(fi, fn, r.value, r)
+    binders = pair_binders(mod, fn)
+    n = 0
+    for e, node in items:
+        comps = [b for b in binders if inside(mod, node, b[0]) and xt(fi, b[2], fi.stmt(b[0])) == P]
+        if not comps:
+            ck.missing(rule, 'convert_local_indices: the element `%s` is not computed inside an unpacking `for <owner>, <index> in %s`' % (u(e)[:60], P))
+            continue
+        n += 1
+        a, b = comps[-1][1]
+        here = fi.stmt(node)
+        val = xn(fi, e, here, stop=(a, b))
+        table = ['ra.RaggedArray(np.arange(%s), lengths=%s)' % (t, GL) for t in ('%s.sum()' % GL, 'sum(%s)' % GL)]
+        forms = ['%s[%s::mpi.size()].flatten()[%s]' % (t, a, b) for t in table]
+        vv = classify(val, forms, {a, b, GL, P})
+        if vv[0] != 'match':
+            # separate the orientation of the pair from the shape of the lookup table
+            v2 = classify(val, ['_T[%s::mpi.size()].flatten()[%s]' % (a, b)], {a, b, GL, P})
+            if v2[0] == 'match':
+                vv = classify(v2[1]['_T'], table, {GL, P})
+                ck.decide(vv, rule, mod, node, F, 'table: ' + u(v2[1]['_T']), '', 'the lookup table must be RaggedArray(arange(total frames), lengths=%s): global frame ids partitioned by trajectory' % GL)
+                continue
+        ck.decide(vv, rule, mod, node, F, u(val), '(owner rank, local frame) -> frames of that rank\'s stripe of trajectories, flattened, at the local position',
+                  'convert_local_indices must unpack (owner, local index) IN THAT ORDER and read <frame-id table>[owner::size].flatten()[local index]')
+    if not n and not ck.incomplete:
+        ck.missing(rule, 'convert_local_indices: no converted element found')
+    ck.floor(rule, n, 1, 'converted (owner, index) pairs in convert_local_indices')
+
+
+def _d4_randind(ck, rule, mod):
     fr = mod.func('randind')
     ck.analysed(mod, fr)
-    r = returns_of(fr)
-    ck.check(len(r) == 1 and u(r[0].value) == '(owner_rank, local_index)', rule, mod, r[0] if r else fr, 'randind', u(r[0]) if r else '?', 'returns (owner_rank, local_index)', 'randind must return (owner_rank, local_index)')
-    w = [s for s in walk_local(fr) if isinstance(s, ast.Assign) and u(s.targets[0]) == '(owner_rank, local_index)']
-    ok = len(w) == 2 and u(w[0].value) == 'ra.where(a == global_index)' and u(w[1].value) == '(owner_rank[0], local_index[0])'
-    ck.check(ok, rule, mod, w[0] if w else fr, 'randind', '; '.join(u(s) for s in w), '(row, column) of the drawn element in the rank-by-rank table', 'owner/local index must come from ra.where(a == global_index) in (row, column) order')
-    a = [s for s in walk_local(fr) if isinstance(s, ast.Assign) and u(s.targets[0]) == 'a']
-    ok = len(a) == 1 and u(kwarg(a[0].value, 'lengths')) == 'n_states' and u(a[0].value.args[0]) == 'concat'
-    cc = [s for s in walk_local(fr) if isinstance(s, ast.Assign) and u(s.targets[0]) == 'concat']
-    ok = ok and len(cc) == 1 and u(cc[0].value) == 'np.concatenate([np.arange(sum(n_states))[r::mpi.size()] for r in range(mpi.size())])'
-    ck.check(ok, rule + '.randind-table', mod, cc[0] if cc else fr, 'randind', u(cc[0]) if cc else '?', 'row r of the table lists the global positions r, r+size, ...', 'the rank table must be built from arange(total)[r::size] per rank with lengths n_states')
-    gi = [s for s in walk_local(fr) if isinstance(s, ast.Assign) and u(s.targets[0]) == 'global_index' and isinstance(s.value, ast.Call) and collective_name(s.value) == 'bcast']
-    ck.check(len(gi) == 1 and u(kwarg(gi[0].value, 'root')) == '0' and gi[0] in fr.body, rule + '.randind-table', mod, gi[0] if gi else fr, 'randind', u(gi[0]) if gi else '?',
-             'the drawn index is broadcast from rank 0 unconditionally', 'global_index must be bcast from root 0 outside any rank test')
-    # PAM consumer: medoid_inds pairs (rank, frame_idx) -> distribute_frame(owner_rank=rank, world_index=frame_idx)
+    fi = finfo(mod, fr)
+    F = 'randind'
+    P = params(fr)[0]
+    rets = returns_of(fr)
+    if len(rets) != 1:
+        ck.missing(rule, 'randind: exactly one return (found %d)' % len(rets))
+        return
+    r = rets[0]
+    val = xn(fi, r.value, r)
+    vv = classify(val, ['(ra.where(_A == _G)[0][0], ra.where(_A == _G)[1][0])', '(ra.where(_G == _A)[0][0], ra.where(_G == _A)[1][0])'], set())
+    if vv[0] != 'match':
+        # near iff the value is built from ra.where components only (e.g. swapped)
+        rough = _classify(val, ['(ra.where(_A == _G)[_I][0], ra.where(_A == _G)[_J][0])'])
+        vv = ('near', 1, vv[2]) if rough[0] == 'match' else ('far', vv[1], vv[2])
+    ck.decide(vv, rule, mod, r, F, u(val)[:200], 'returns (row, column) = (owner_rank, local_index) of the drawn element in the rank-by-rank table',
+              'randind must return (owner_rank, local_index): row and column, in this order, of ra.where(<rank table> == <drawn global index>)')
+    if vv[0] != 'match':
+        return
+    A, G = vv[1]['_A'], vv[1]['_G']
+    if isinstance(A, ast.Name) and not isinstance(G, ast.Name):
+        A, G = G, A
+    rr = rule + '.randind-table'
+    v2 = _classify(A, ['ra.RaggedArray(np.concatenate([np.arange(_T)[_R::mpi.size()] for _R in range(mpi.size())]), lengths=_N, error_checking=False)',
+                       'ra.RaggedArray(np.concatenate([np.arange(_T)[_R::mpi.size()] for _R in range(mpi.size())]), lengths=_N)',
+                       'ra.RaggedArray(np.concatenate(tuple(np.arange(_T)[_R::mpi.size()] for _R in range(mpi.size()))), lengths=_N, error_checking=False)'])
+    if v2[0] != 'match' or not isinstance(v2[1]['_N'], ast.Name):
+        names = {x.id for x in ast.walk(A) if isinstance(x, ast.Name)} - _comp_bound(A)
+        v2 = ('near' if closed_over(A, names) and v2[1] <= 4 else 'far', v2[1], v2[2])
+        ck.decide(v2, rr, mod, r, F, u(A)[:200], '', 'the rank table must be RaggedArray(concatenate([arange(total)[r::size] for r in range(size)]), lengths=<per-rank counts>): '
+                  'row r lists the global positions r, r+size, ...')
+        return
+    N = v2[1]['_N'].id
+    ck.check(u(v2[1]['_T']) in ('sum(%s)' % N, '%s.sum()' % N), rr, mod, r, F, u(A)[:200], 'row r of the table lists the global positions r, r+size, ... below the total count',
+             'the positions striped over the ranks must be arange(sum(%s)), found arange(%s)' % (N, u(v2[1]['_T'])))
+    # per-rank counts: all-gathered local lengths
+    nd = [s for s in fi.rd.defs_at(r, N) if s not in ('PARAM', 'UNBOUND')]
+    if len(nd) == 1 and fi.def_value(nd[0], N) is not None:
+        v3 = classify(norm(fi.def_value(nd[0], N)), ['np.array(mpi.comm.allgather(len(%s)))' % P, 'mpi.comm.allgather(len(%s))' % P, 'np.array(mpi.comm.allgather(%s.shape[0]))' % P,
+                                                    'np.asarray(mpi.comm.allgather(len(%s)))' % P], set())
+        ck.decide(v3 if v3[0] == 'match' else ('far', v3[1], v3[2]), rr, mod, nd[0], F, u(nd[0]), 'row lengths = all-gathered local lengths', 'the per-rank counts must be the all-gathered len(%s)' % P)
+    else:
+        ck.missing(rr, 'randind: definition of the per-rank counts `%s`' % N)
+    # the drawn index: bcast from the rank that draws, executed by every rank
+    if not isinstance(G, ast.Name):
+        ck.missing(rr, 'randind: drawn index is not a name: %s' % u(G))
+        return
+    gd = fi.rd.defs_at(r, G.id)
+    site = next(iter(gd)) if len(gd) == 1 else None
+    c = fi.def_value(site, G.id) if site not in (None, 'PARAM', 'UNBOUND') else None
+    if not (isinstance(c, ast.Call) and collective_name(c) == 'bcast'):
+        if c is not None and not any(collective_name(x) for x in ast.walk(c) if isinstance(x, ast.Call)) and len(gd) == 1:
+            ck.bad(rr, mod, site, F, u(site), 'the drawn index is not broadcast: every rank draws (or keeps) its own value and the ranks disagree on the chosen element')
+        else:
+            ck.missing(rr, 'randind: the drawn index `%s` is not the result of one bcast on every path (%d definitions reach the return)' % (G.id, len(gd)))
+        return
+    root, obj = arg(c, 1, 'root'), arg(c, 0, 'obj')
+    k = const_value(root) if root is not None else 0
+    if not isinstance(k, int):
+        ck.missing(rr, 'randind: bcast root is not a constant rank: %s' % u(c))
+        return
+    # who draws: the non-None definitions of the payload must sit under mpi.rank() == k
+    draws = []
+    if isinstance(obj, ast.Name):
+        for s2 in fi.rd.defs_at(site, obj.id):
+            v4 = fi.def_value(s2, obj.id) if s2 not in ('PARAM', 'UNBOUND') else None
+            if v4 is None:
+                draws.append((None, s2))
+            elif not (isinstance(v4, ast.Constant) and v4.value is None):
+                draws.append((v4, s2))
+    elif isinstance(obj, ast.IfExp):
+        cj = conjuncts(obj.test, True) or []
+        ok = any(atom_rel(fi, x, 'mpi.rank()', str(k), site) == '==' for x in cj)
+        draws.append((obj.body if ok else None, site))
+    else:
+        draws.append((None, site))
+    okd = bool(draws)
+    for v4, s2 in draws:
+        if v4 is None:
+            okd = None
+            break
+        if s2 is not site and not any(atom_rel(fi, x, 'mpi.rank()', str(k), o) == '==' for x, o in path_atoms(fi, s2)):
+            okd = False
+    if okd is None:
+        ck.missing(rr, 'randind: the payload of the bcast is not understood: %s' % u(c))
+    else:
+        ck.check(okd, rr, mod, site, F, u(site), 'the drawn index is broadcast from the rank that draws it (rank %d), by every rank' % k,
+                 'the index is drawn on a rank other than the bcast root %d: the root broadcasts a value it never drew' % k)
+        for v4, s2 in draws:
+            v5 = classify(xn(fi, v4, s2), ['_RS.randint(sum(%s))' % N, '_RS.randint(%s.sum())' % N, '_RS.randint(0, sum(%s))' % N, '_RS.randint(0, %s.sum())' % N,
+                                           '_RS.randint(low=0, high=sum(%s))' % N, '_RS.integers(sum(%s))' % N, '_RS.integers(0, sum(%s))' % N], {N})
+            if v5[0] == 'far':
+                # a draw through the RandomState of this function is not "pure": decide on the argument
+                m = _classify(xn(fi, v4, s2), ['_RS.randint(_X)', '_RS.randint(0, _X)', '_RS.integers(_X)', '_RS.integers(0, _X)'])
+                if m[0] == 'match' and closed_over(m[1]['_X'], {N}):
+                    v5 = ('near', v5[1], v5[2])
+            ck.decide(v5, rr, mod, s2, F, u(s2), 'uniform draw over all positions 0 .. total-1', 'the global index must be drawn uniformly from range(sum(%s))' % N)
+
+
+def _df_sites(mod, fn):
+    return [c for c in calls_in(fn) if (call_name(c) or '').split('.')[-1] == 'distribute_frame']
+
+
+def _d4_distribute_sites(ck, rule):
+    """Consumers: every distribute_frame(data, world_index, owner_rank) call
+    whose owner/index arguments are the two components of one pair must take
+    the FIRST component as owner and the second as index.  Producers: a pair
+    built from the owner and index values of such a call must be (owner,
+    index)."""
+    nc = npd = 0
+    for rel in (KM, KC):
+        mod = ck.repo.mod(rel)
+        for q, fn in mod.functions.items():
+            sites = _df_sites(mod, fn)
+            if not sites:
+                continue
+            ck.analysed(mod, fn)
+            fi = finfo(mod, fn)
+            binders = pair_binders(mod, fn)
+            for c in sites:
+                here = fi.stmt(c)
+                o, w = arg(c, 2, 'owner_rank'), arg(c, 1, 'world_index')
+                if o is None or w is None:
+                    ck.missing(rule + '.consumers', '%s: owner/index arguments of %s not found' % (q, u(c)[:100]))
+                    continue
+                io = iw = None
+                src = ''
+                if isinstance(o, ast.Name) and isinstance(w, ast.Name):
+                    io, iw = _pair_component(binders, mod, c, o.id), _pair_component(binders, mod, c, w.id)
+                    same_binder = any(inside(mod, c, b[0]) and {o.id, w.id} == set(b[1]) for b in binders)
+                    if not same_binder:
+                        io = iw = None
+                    src = 'unpacked pair'
+                    if io is None:
+                        uo, uw = unpack_source(fi, o.id, here), unpack_source(fi, w.id, here)
+                        if uo is not None and uw is not None and uo[2] is uw[2]:
+                            io, iw, src = uo[1], uw[1], 'components of ' + u(uo[0])[:60]
+                        elif uo is not None and isinstance(uo[0], ast.Call) and (call_name(uo[0]) or '').split('.')[-1] == 'randind':
+                            # owner from randind; the index is broadcast by the owner
+                            io, src = uo[1], 'randind'
+                            iw = _bcast_index_component(ck, rule + '.consumers', mod, fn, fi, q, c, o, w, uo)
+                            if iw is None:
+                                continue
+                elif isinstance(o, ast.Subscript) and isinstance(w, ast.Subscript) and isinstance(o.value, ast.Name) and isinstance(w.value, ast.Name) and \
+                        o.value.id == w.value.id and isinstance(const_value(o.slice), int) and isinstance(const_value(w.slice), int):
+                    io, iw, src = const_value(o.slice), const_value(w.slice), 'components of ' + o.value.id
+                if io is None or iw is None:
+                    continue        # not the two components of one pair (e.g. k-centers: argmax owner / gathered index)
+                nc += 1
+                ck.check((io, iw) == (0, 1), rule + '.consumers', mod, c, q, u(c), 'pair consumed as (owner_rank, world_index) [%s]' % src,
+                         'the (owner rank, local index) pair must be passed as owner_rank=<first component>, world_index=<second component>; '
+                         'found owner_rank=component %s, world_index=component %s' % (io, iw))
+            # producers
+            for t in walk_local(fn):
+                if not (isinstance(t, ast.Tuple) and len(t.elts) == 2 and isinstance(t.ctx, ast.Load)) or _in_message(mod, t):
+                    continue
+                for c in sites:
+                    o, w = arg(c, 2, 'owner_rank'), arg(c, 1, 'world_index')
+                    if o is None or w is None:
+                        continue
+                    a, b = t.elts
+                    if _same(fi, a, o) and _same(fi, b, w):
+                        npd += 1
+                        ck.ok(rule + '.producers', mod, t, '%s: %s' % (q, u(t)), 'pair produced as (owner rank, index on the owner) of the frame that was distributed')
+                    elif _same(fi, a, w) and _same(fi, b, o):
+                        npd += 1
+                        ck.bad(rule + '.producers', mod, t, q, u(t), 'the pair is built as (index, owner): every consumer (distribute_frame, convert_local_indices, '
+                               'the PAM update) reads pairs as (owner_rank, local_index)')
+    ck.floor(rule + '.consumers', nc, 4, 'distribute_frame calls fed by an (owner, index) pair')
+    ck.floor(rule + '.producers', npd, 2, '(owner, index) pairs built next to a distribute_frame call')
+
+
+def _bcast_index_component(ck, rule, mod, fn, fi, q, call, o, w, uo):
+    """_propose_new_center_amongst: `r, idx = randind(...)`; the frame index
+    is state_inds[idx] broadcast by rank r.  Returns the component of the
+    randind result that indexes the candidate list (expected 1), or None
+    (reported)."""
+    here = fi.stmt(call)
+    rcall, rpos, rsite = uo
+    subs = []
+    roots = []
+    for site in fi.rd.defs_at(here, w.id):
+        v = fi.def_value(site, w.id) if site not in ('PARAM', 'UNBOUND') else None
+        if not (isinstance(v, ast.Call) and collective_name(v) == 'bcast'):
+            ck.missing(rule, '%s: the index passed to distribute_frame is not a bcast result: %s' % (q, u(site)[:100] if hasattr(site, 'lineno') else site))
+            return None
+        roots.append((arg(v, 1, 'root'), site))
+        payloads = [arg(v, 0, 'obj')]
+        if isinstance(payloads[0], ast.Name):
+            payloads = [fi.def_value(s2, payloads[0].id) for s2 in fi.rd.defs_at(site, payloads[0].id) if s2 not in ('PARAM', 'UNBOUND')]
+        for pl in payloads:
+            for x in (ast.walk(pl) if pl is not None else []):
+                if isinstance(x, ast.Subscript) and isinstance(x.slice, ast.Name):
+                    us = unpack_source(fi, x.slice.id, site)
+                    if us is not None and us[2] is rsite:
+                        subs.append(us[1])
+    for root, site in roots:
+        ck.check(isinstance(root, ast.Name) and _same(fi, root, o), rule, mod, site, q, u(site), 'the local frame number is broadcast by the owner drawn by randind',
+                 'the frame index must be broadcast with root = the owner rank returned by randind (`%s`)' % o.id)
+    if not subs:
+        ck.missing(rule, '%s: no <candidates>[<local index from randind>] in the broadcast payload' % q)
+        return None
+    if len(set(subs)) != 1:
+        ck.missing(rule, '%s: the broadcast payload is indexed by different components of the randind result' % q)
+        return None
+    return subs[0]
+
+
+def _d4_ctr_ids(ck, rule):
     mk = ck.repo.mod(KM)
-    for q in ('_kmedoids_pam_update', '_kmedoids_inputs_tree_mpi'):
-        f = mk.func(q)
-        for l in walk_local(f):
-            if isinstance(l, ast.For) and isinstance(l.target, ast.Tuple) and u(l.target).endswith('(rank, frame_idx))'):
-                dfs = [c for c in calls_in(l) if (call_name(c) or '').endswith('distribute_frame')]
-                ok = len(dfs) == 1 and u(kwarg(dfs[0], 'owner_rank')) == 'rank' and u(kwarg(dfs[0], 'world_index')) == 'frame_idx'
-                ck.check(ok, rule + '.consumers', mk, dfs[0] if dfs else l, q, u(dfs[0]) if dfs else u(l.target),
-                         'pair consumed as (owner_rank, world_index)', 'the (rank, index) pair must be passed as owner_rank=rank, world_index=frame_idx')
     f = mk.func('ctr_ids_mpi')
-    ap = [c for c in calls_in(f) if u(c.func) == 'updated_ctr_inds.append']
-    ck.check(len(ap) == 1 and u(ap[0].args[0]) == '(mpi_rank, concat_idx)', rule + '.consumers', mk, ap[0] if ap else f, 'ctr_ids_mpi', u(ap[0]) if ap else '?', 'produces (rank, local index) pairs', 'ctr_ids_mpi must append (mpi_rank, concat_idx)')
+    fi = finfo(mk, f)
+    items = []
+    for r in returns_of(f):
+        items += collected(fi, f, r.value, r)
+    n = 0
+    for e, node in items:
+        if not (isinstance(e, ast.Tuple) and len(e.elts) == 2):
+            continue
+        here = fi.stmt(node)
+        mods = [isinstance(x, ast.BinOp) and isinstance(x.op, ast.Mod) and u(x.right) == 'mpi.size()' for x in (xn(fi, y, here) for y in e.elts)]
+        if mods.count(True) != 1:
+            ck.missing(rule, 'ctr_ids_mpi: cannot tell the owner component (<trajectory> %% size) of %s' % u(e))
+            continue
+        n += 1
+        ck.check(mods[0], rule, mk, node, 'ctr_ids_mpi', u(node), 'produces (rank, local index) pairs', 'ctr_ids_mpi must append (owner rank, local index): the owner (trajectory % size) comes first')
+    if not n:
+        ck.missing(rule, 'ctr_ids_mpi: no (owner, index) pair collected into the result')
+
+
+def _d4_local_centres(ck, rule):
+    """kmedoids: the centre frames of THIS rank are the index parts of the
+    pairs whose owner part equals mpi.rank()."""
+    mk = ck.repo.mod(KM)
     f = mk.func('kmedoids')
-    lc = [s for s in walk_local(f) if isinstance(s, ast.Assign) and u(s.targets[0]) == 'local_ctr_inds']
-    ck.check(len(lc) == 1 and u(lc[0].value) == '[pair[1] for pair in cluster_center_inds if pair[0] == mpi.rank()]', rule + '.consumers', mk, lc[0] if lc else f, 'kmedoids', u(lc[0]) if lc else '?',
-             'local centre frames = index part of pairs owned by this rank', 'local centre indices must be pair[1] of pairs with pair[0] == mpi.rank()')
+    fi = finfo(mk, f)
+    n = 0
+    for comp in walk_local(f):
+        if not isinstance(comp, (ast.ListComp, ast.GeneratorExp)) or len(comp.generators) != 1:
+            continue
+        g = comp.generators[0]
+        here = fi.stmt(comp)
+
+        def component(e):
+            if isinstance(g.target, ast.Name) and isinstance(e, ast.Subscript) and isinstance(e.value, ast.Name) and e.value.id == g.target.id and \
+                    isinstance(const_value(e.slice), int):
+                return const_value(e.slice)
+            if isinstance(g.target, (ast.Tuple, ast.List)) and len(g.target.elts) == 2 and isinstance(e, ast.Name):
+                ids = [x.id if isinstance(x, ast.Name) else None for x in g.target.elts]
+                return ids.index(e.id) if e.id in ids else None
+            return None
+        sel = None
+        for t in g.ifs:
+            for c in (conjuncts(t, True) or []):
+                if isinstance(c, Cmp) and c.rel == '==':
+                    l, r = c.lhs, c.rhs
+                    if xt(fi, l, here) == 'mpi.rank()':
+                        l, r = r, l
+                    if xt(fi, r, here) == 'mpi.rank()' and component(l) is not None:
+                        sel = component(l)
+        if sel is None:
+            continue
+        n += 1
+        got = component(comp.elt)
+        if got is None:
+            ck.missing(rule, 'kmedoids: element of the rank-filtered comprehension not understood: %s' % u(comp)[:120])
+            continue
+        ck.check((sel, got) == (0, 1), rule, mk, comp, 'kmedoids', u(comp), 'local centre frames = index part of pairs owned by this rank',
+                 'local centre indices must be the SECOND component of the pairs whose FIRST component equals mpi.rank(); found filter on component %d, value component %d' % (sel, got))
+    if not n:
+        ck.missing(rule, 'kmedoids: selection of the centre pairs owned by this rank (`... if pair[0] == mpi.rank()`) not found')
 
 
 def d5_fallback(ck):
@@ -348,11 +1469,10 @@ def d5_fallback(ck):
                     if attr in have:
                         ck.ok(rule, mod, c, d, 'defined on the serial fallback')
                         continue
-                    # reachable with size()==1 ?  look for a dominating `if mpi.size() == 1: return`
+                    # reachable with size()==1 ?  the path condition of the use must exclude a single rank
                     fi = fi or finfo(mod, fn)
                     st = fi.stmt(c)
-                    guards = [g for g in fn.body if isinstance(g, ast.If) and u(g.test) in ('mpi.size() == 1', '1 == mpi.size()') and
-                              any(isinstance(x, ast.Return) for x in g.body) and fn.body.index(g) < (fn.body.index(_top(mod, fn, st)) if _top(mod, fn, st) in fn.body else -1)]
+                    guards = [x for x in (int_range(fi, a, 'mpi.size()', o) for a, o in path_atoms(fi, st)) if x is not None and not _permits(x, 1)]
                     ck.check(bool(guards), rule, mod, c, q, d,
                              'not on the fallback, but unreachable when size() == 1 (early return)',
                              '`%s` is used on a path that runs with a single rank, but the serial fallback (%s in mpi/util.py) '
@@ -384,15 +1504,6 @@ def d5_fallback(ck):
              'the ImportError handler must define rank() -> 0, size() -> 1 and bind comm / mpi4py to DummyComm / dummy_mpi4py of mpi/util.py')
 
 
-def _top(mod, fn, st):
-    cur = st
-    par = mod.parent.get(cur)
-    while par is not None and par is not fn:
-        cur = par
-        par = mod.parent.get(cur)
-    return cur
-
-
 def d6_nullness(ck):
     rule = 'C14.D6.checked-none-then-used'
     mod = ck.repo.mod(KM)
@@ -420,55 +1531,232 @@ def d6_nullness(ck):
                     n += 1
                     ck.bad(rule, mod, s, '_kmedoids_inputs_tree_mpi', u(s)[:120], '`%s` is None on this path and is subscripted' % x.value.id)
     ck.ok(rule, mod, fn, '_kmedoids_inputs_tree_mpi: %d attribute/subscript uses checked' % n, 'nullness dataflow')
-    ar = [c for c in calls_in(fn) if call_name(c) == 'np.arange' and c.args and u(c.args[0]) == 'X']
+    X = params(fn)[0]       # the data array
+    ar = [c for c in calls_in(fn) if call_name(c) == 'np.arange' and len(c.args) == 1 and isinstance(c.args[0], ast.Name) and c.args[0].id == X and
+          fi.rd.defs_at(fi.stmt(c), X) == {'PARAM'}]
     for c in ar:
         ck.bad(rule + '.arange', mod, c, '_kmedoids_inputs_tree_mpi', u(c), 'np.arange(X) is given the data array instead of its length: TypeError on the same cold-start path')
+
+
+def _allreduce_of(ck, rule, mod, fi, fn, F, name_expr, here, op, local_forms, P, what):
+    """`name_expr` (evaluated at `here`) must be mpi.comm.allreduce(<local>,
+    op=<op>) with <local> one of local_forms (a function of the local array P).
+    Decides on the reaching definitions of the name, so dead stores, renamed
+    or inlined temporaries do not matter."""
+    sites = [(name_expr, here)]
+    if isinstance(name_expr, ast.Name):
+        sites = []
+        for s in fi.rd.defs_at(here, name_expr.id):
+            v = fi.def_value(s, name_expr.id) if s not in ('PARAM', 'UNBOUND') else None
+            if v is None:
+                ck.missing(rule, '%s: definition of `%s` not understood (%s)' % (F, name_expr.id, u(s)[:80] if hasattr(s, 'lineno') else s))
+                return False
+            sites.append((v, s))
+    ok = True
+    for v, s in sites:
+        val = norm(v)
+        scope = {P} | {x.id for x in ast.walk(val) if isinstance(x, ast.Name) and _temp(fi, x.id, s, False) is not None}
+        vv = classify(val, ['mpi.comm.allreduce(_L, op=mpi.mpi4py.%s)' % op], scope)
+        node = s if hasattr(s, 'lineno') else fn
+        if vv[0] != 'match':
+            if vv[0] == 'far' and not any(collective_name(x) for x in ast.walk(val) if isinstance(x, ast.Call)) and closed_over(xn(fi, v, s), {P}):
+                vv = ('near', vv[1], vv[2])
+            if isinstance(val, ast.Call) and collective_name(val) and (collective_name(val) != 'allreduce' or (
+                    kwarg(val, 'op') is not None and (dotted(kwarg(val, 'op')) or '').startswith('mpi.mpi4py.'))):
+                vv = ('near', vv[1], vv[2])      # a collective, but another one / another reduction operator
+            ok = False
+            ck.decide(vv, rule, mod, node, F, u(node) if node is not fn else u(v), '',
+                      '%s must be the all-reduced %s of the local value over all ranks; deriving it without a collective (e.g. <local> * mpi.size()) is '
+                      'only right when every rank holds the same share' % (what, op))
+            continue
+        loc = xn(fi, vv[1]['_L'], s)
+        v2 = classify(loc, local_forms, {P})
+        ok = ck.decide(v2, rule, mod, node, F, u(node) + '  [local: %s]' % u(loc), '%s = allreduce(%s, %s)' % (what, u(loc), op),
+                       'the value reduced with %s must be %s of the local array `%s`' % (op, ' / '.join(local_forms), P)) and ok
+    return ok
+
+
+def _inline_local_call(fi, fn, call):
+    """`f(args)` where f is a def nested in fn whose body is a chain of
+    `if c: return A else: return B` / `return X`: the equivalent conditional
+    expression over the ARGUMENTS, else None."""
+    if not isinstance(call.func, ast.Name):
+        return None
+    defs = [s for s in fn.body if isinstance(s, ast.FunctionDef) and s.name == call.func.id]
+    if len(defs) != 1 or call.keywords or len(call.args) != len(params(defs[0])) or defs[0].args.defaults:
+        return None
+    sub = dict(zip(params(defs[0]), call.args))
+
+    def subst(e):
+        class S(ast.NodeTransformer):
+            def visit_Name(self, n):
+                return copy.deepcopy(sub[n.id]) if n.id in sub and isinstance(n.ctx, ast.Load) else n
+        return S().visit(copy.deepcopy(e))
+
+    def body(stmts):
+        stmts = [s for s in stmts if not (isinstance(s, ast.Expr) and isinstance(s.value, ast.Constant)) and not isinstance(s, ast.Pass)]
+        if not stmts:
+            return None
+        s = stmts[0]
+        if isinstance(s, ast.Return) and s.value is not None:
+            return subst(s.value)
+        if isinstance(s, ast.If):
+            a = body(s.body)
+            b = body(s.orelse if s.orelse else stmts[1:])
+            if a is None or b is None:
+                return None
+            return ast.IfExp(test=subst(s.test), body=a, orelse=b)
+        return None
+    return body(defs[0].body)
+
+
+def _mpi_arm(e):
+    """the value an expression takes in MPI mode: peel conditional
+    expressions on mpi_mode / world size."""
+    while isinstance(e, ast.IfExp):
+        if is_mpi_mode_test(e.test):
+            e = e.body
+        elif isinstance(e.test, ast.UnaryOp) and isinstance(e.test.op, ast.Not) and is_mpi_mode_test(e.test.operand):
+            e = e.orelse
+        else:
+            break
+    return e
 
 
 def d8_reductions(ck):
     rule = 'C14.D8.reductions'
     mod = ck.repo.mod(OPS)
+    # ---- striped mean
     fn = mod.func('striped_array_mean')
     ck.analysed(mod, fn)
     fi = finfo(mod, fn)
-    r = [x for x in returns_of(fn) if u(x.value) == 'global_sum / global_len']
-    ck.check(len(r) == 1, rule, mod, r[0] if r else fn, 'striped_array_mean', 'return global_sum / global_len', 'mean = global sum / global count', 'the striped mean must be global_sum / global_len')
-    for g, loc in (('global_sum', 'local_sum'), ('global_len', 'local_len')):
-        ds = [s for s in assigns_to(fn, g) if isinstance(s, ast.Assign) and isinstance(s.value, ast.Call) and collective_name(s.value)]
-        alld = [s for s in assigns_to(fn, g) if isinstance(s, ast.Assign)]
-        last = alld[-1] if alld else None
-        ok = len(ds) == 1 and last is ds[0] and collective_name(ds[0].value) == 'allreduce' and u(ds[0].value.args[0]) == loc and \
-            u(kwarg(ds[0].value, 'op')) == 'mpi.mpi4py.SUM'
-        ck.check(ok, rule, mod, last or fn, 'striped_array_mean', u(last) if last is not None else g,
-                 '%s = allreduce(%s, SUM)' % (g, loc),
-                 '`%s` must be the all-reduced SUM of `%s` over all ranks: deriving it locally (e.g. %s * mpi.size()) is '
-                 'only right when every rank holds the same number of elements' % (g, loc, loc))
-    ls = [s for s in assigns_to(fn, 'local_sum') if isinstance(s, ast.Assign)]
-    ll = [s for s in assigns_to(fn, 'local_len') if isinstance(s, ast.Assign)]
-    ok = len(ls) == 1 and u(ls[0].value) == C('np.sum(%s)' % params(fn)[0]) and len(ll) == 1 and u(ll[0].value) == 'len(%s)' % params(fn)[0]
-    ck.check(ok, rule, mod, ls[0] if ls else fn, 'striped_array_mean', '%s ; %s' % (u(ls[0]) if ls else '?', u(ll[0]) if ll else '?'), 'local sum and local count of the same array', 'local_sum/local_len must be np.sum/len of the local array')
+    F = 'striped_array_mean'
+    P = params(fn)[0]
+    n = 0
+    for r in returns_of(fn):
+        serial = any(atom_rel(fi, c, 'mpi.size()', '1', o) == '==' for c, o in path_atoms(fi, r))
+        val = xn(fi, r.value, r)
+        if serial:
+            vv = classify(val, ['%s.sum() / len(%s)' % (P, P), '%s.mean()' % P, '%s.sum() / %s.shape[0]' % (P, P)], {P})
+            ck.decide(vv, rule, mod, r, F, 'single rank: ' + u(val), 'with one rank the mean is the local mean', 'with a single rank the striped mean must be sum/len of the local array')
+            continue
+        n += 1
+        if not (isinstance(r.value, ast.BinOp) and isinstance(r.value.op, ast.Div)):
+            vv = ('near', 1, 'global_sum / global_len') if closed_over(val, {P}) else ('far', 1, None)
+            ck.decide(vv, rule, mod, r, F, 'return ' + u(r.value), '', 'the striped mean must be <all-reduced sum> / <all-reduced count>')
+            continue
+        ck.ok(rule, mod, r, 'return ' + u(r.value), 'mean = global sum / global count')
+        _allreduce_of(ck, rule, mod, fi, fn, F, r.value.left, r, 'SUM', ['%s.sum()' % P], P, 'the numerator (global sum)')
+        _allreduce_of(ck, rule, mod, fi, fn, F, r.value.right, r, 'SUM', ['len(%s)' % P, '%s.shape[0]' % P], P, 'the denominator (global element count)')
+    ck.floor(rule, n, 1, 'multi-rank return of striped_array_mean')
+    # ---- striped max
     fm = mod.func('striped_array_max')
     ck.analysed(mod, fm)
-    gm = [s for s in walk_local(fm) if isinstance(s, ast.Assign) and isinstance(s.value, ast.Call) and collective_name(s.value) == 'allreduce']
-    ok = len(gm) == 1 and u(gm[0].value.args[0]) == 'local_max' and u(kwarg(gm[0].value, 'op')) == 'mpi.mpi4py.MAX'
-    lm = [s for s in assigns_to(fm, 'local_max') if isinstance(s, ast.Assign)]
-    ok = ok and len(lm) == 1 and u(lm[0].value) in CS('%s.max()' % params(fm)[0], 'np.max(%s)' % params(fm)[0])
-    r = returns_of(fm)
-    ok = ok and len(r) == 1 and u(r[0].value) == u(gm[0].targets[0])
-    ck.check(ok, rule, mod, gm[0] if gm else fm, 'striped_array_max', u(gm[0]) if gm else '?', 'global max = allreduce(local max, MAX)', 'the striped max must be allreduce(local_array.max(), op=MAX)')
-    # _msq uses the striped mean
+    fim = finfo(mod, fm)
+    Pm = params(fm)[0]
+    rets = returns_of(fm)
+    if not rets:
+        ck.missing(rule, 'striped_array_max: no return')
+    for r in rets:
+        if any(atom_rel(fim, c, 'mpi.size()', '1', o) == '==' for c, o in path_atoms(fim, r)):
+            vv = classify(xn(fim, r.value, r), ['%s.max()' % Pm], {Pm})
+            ck.decide(vv, rule, mod, r, 'striped_array_max', 'single rank: ' + u(r.value), 'with one rank the max is the local max', 'with a single rank the striped max must be the local max')
+            continue
+        _allreduce_of(ck, rule, mod, fim, fm, 'striped_array_max', r.value, r, 'MAX', ['%s.max()' % Pm], Pm, 'the striped max')
+    # ---- _msq uses the striped mean
     mk = ck.repo.mod(KM)
     f = mk.func('_msq')
-    r = returns_of(f)
-    ck.check(len(r) == 1 and u(r[0].value) == 'mpi.ops.striped_array_mean(np.square(x))', rule + '.cost', mk, r[0] if r else f, '_msq', u(r[0]) if r else '?',
-             'k-medoids cost = global mean of squared distances (uniform on all ranks)', 'the default cost must be the striped (global) mean of squared distances')
-    # kcenters maxdist in MPI mode
+    fk = finfo(mk, f)
+    x = params(f)[0]
+    for r in returns_of(f):
+        vv = classify(xn(fk, r.value, r), ['mpi.ops.striped_array_mean(np.square(%s))' % x, 'mpi.ops.striped_array_mean(%s ** 2)' % x, 'mpi.ops.striped_array_mean(%s * %s)' % (x, x),
+                                           'mpi.ops.striped_array_mean(np.power(%s, 2))' % x], {x})
+        if vv[0] == 'far':
+            # striped_array_mean is a known package reduction: any other arrangement of it with numpy functions of x is a different cost
+            t = copy.deepcopy(xn(fk, r.value, r))
+            calls = [c for c in ast.walk(t) if isinstance(c, ast.Call)]
+            if all((call_name(c) or '') == 'mpi.ops.striped_array_mean' or _pure(ast.Call(func=c.func, args=[], keywords=[])) for c in calls) and \
+                    all(y.id in (x,) or y.id in _GLOBALS or y.id in _NEUTRAL for y in ast.walk(t) if isinstance(y, ast.Name)):
+                vv = ('near', vv[1], vv[2])
+        ck.decide(vv, rule + '.cost', mk, r, '_msq', u(r), 'k-medoids cost = global mean of squared distances (uniform on all ranks)',
+                  'the default cost must be the striped (global) mean of squared distances')
+    if not returns_of(f):
+        ck.missing(rule + '.cost', '_msq: no return')
+    # ---- kcenters: the stopping radius in MPI mode
     kc = ck.repo.mod(KC)
     f = kc.func('kcenters')
-    md = [s for s in assigns_to(f, 'maxdist') if isinstance(s, ast.Assign)]
-    ok = len(md) == 2 and all(isinstance(s.value, ast.IfExp) and u(s.value.test) == 'mpi_mode' and u(s.value.body) == 'mpi.ops.striped_array_max(distances)' for s in md)
-    ck.check(ok, rule + '.stop-test', kc, md[0] if md else f, 'kcenters', '; '.join(u(s) for s in md)[:200],
-             'the stopping radius is the GLOBAL maximum in MPI mode (same on every rank)', 'in MPI mode maxdist must be the all-reduced maximum on every evaluation')
+    fc = finfo(kc, f)
+    ps = params(f)
+    cut = 'dist_cutoff' if 'dist_cutoff' in ps else (ps[3] if len(ps) > 3 else None)
+    loops = []
+    for l in walk_local(f):
+        if isinstance(l, ast.While):
+            for c in (conjuncts(l.test, True) or []):
+                if isinstance(c, Cmp) and c.as_less() is not None:
+                    small, strict, big = c.as_less()
+                    if u(small) == cut and isinstance(big, ast.Name):
+                        loops.append((l, big.id))
+    rs = rule + '.stop-test'
+    if len(loops) != 1:
+        ck.missing(rs, 'kcenters: the loop `while ... <radius> > %s` (found %d)' % (cut, len(loops)))
+        return
+    loop, M = loops[0]
+    # the distance array handed to / returned by the iteration inside the loop
+    D = None
+    for s in walk_local(loop):
+        if isinstance(s, ast.Assign) and isinstance(s.targets[0], ast.Tuple) and len(s.targets[0].elts) == 4 and isinstance(s.value, ast.Call) and \
+                isinstance(s.targets[0].elts[1], ast.Name):
+            D = s.targets[0].elts[1].id
+    D = D or 'distances'
+    nd = 0
+    for site in sorted(fc.rd.defs_at(loop, M), key=lambda s: getattr(s, 'lineno', 0)):
+        if site in ('PARAM', 'UNBOUND'):
+            ck.missing(rs, 'kcenters: `%s` may be %s at the loop test' % (M, site))
+            continue
+        v = fc.def_value(site, M)
+        if v is None:
+            ck.missing(rs, 'kcenters: definition of `%s` not understood: %s' % (M, u(site)[:80]))
+            continue
+        nd += 1
+        atoms = path_atoms(fc, site)
+        if any(isinstance(c, tuple) and c[0] == 'expr' and is_mpi_mode_test(c[1]) and not c[2] for c, o in atoms):
+            ck.ok(rs, kc, site, u(site), 'serial arm')
+            continue
+        e = xn(fc, v, site)
+        if isinstance(e, ast.Call):
+            inl = _inline_local_call(fc, f, e)
+            if inl is not None:
+                e = norm(inl)
+        in_mpi_arm = any(isinstance(c, tuple) and c[0] == 'expr' and is_mpi_mode_test(c[1]) and c[2] for c, o in atoms)
+        arm = _mpi_arm(e)
+        if arm is e and not in_mpi_arm and not closed_over(e, {D}):
+            ck.missing(rs, 'kcenters: cannot see the MPI-mode value of the stopping radius in `%s`' % u(site)[:120])
+            continue
+        vv = classify(arm, ['mpi.ops.striped_array_max(%s)' % D], {D})
+        ck.decide(vv, rs, kc, site, 'kcenters', u(site)[:200], 'the stopping radius is the GLOBAL maximum in MPI mode (same on every rank)',
+                  'in MPI mode maxdist must be the all-reduced maximum mpi.ops.striped_array_max(%s) on every evaluation' % D)
+    ck.floor(rs, nd, 2, 'definitions of the stopping radius reaching the loop test of kcenters')
+
+
+def d10_every_rank(ck):
+    """Rules added after the seeding rounds (DESIGN.md 11.2, G1/G2): the
+    striped loaders and reductions must work on a rank that owns nothing
+    (more ranks than files: its per-file loops run zero times) and for data of
+    any sign."""
+    from . import extra
+    io = ck.repo.mod(IO)
+    ops = ck.repo.mod(OPS)
+    n = extra.definite_assignment(
+        ck, 'C14.D10.every-rank.definite-assignment', io,
+        [q for q in ('load_h5_as_striped', 'load_npy_as_striped', 'load_trajectory_as_striped') if q in io.functions],
+        why='a rank that owns no file: its loop over filenames[rank::size] runs zero times')
+    n += extra.definite_assignment(
+        ck, 'C14.D10.every-rank.definite-assignment', ops,
+        [q for q in ops.functions if '.' not in q],
+        why='a rank that owns nothing')
+    ck.floor('C14.D10.every-rank.definite-assignment', n, 60, 'reads of locals in the striped loaders and reductions')
+    m = extra.reduction_asserts(ck, 'C14.D10.reduction-assert', ops, [q for q in ops.functions if '.' not in q])
+    ck.notes.setdefault('instance_floors', {})['C14.D10.reduction-assert'] = {'found': m, 'floor': 0}
 
 
 def check(ck):
@@ -486,6 +1774,7 @@ def check(ck):
     check_running_min_commit(ck, 'C14.D9.commit', kc, '_kcenters_iteration_mpi', True, 'len-before-append')
     from .C02 import d1_farthest
     d1_farthest(ck)
+    d10_every_rank(ck)
     ck.assume('SPMD calling convention: every rank calls the library with the same kind of arguments '
               '(None-ness, flags, replicated parameters as listed in the uniformity table)')
     ck.assume('a user-supplied k-medoids cost callable returns a rank-uniform value (the default _msq is all-reduced)')
